@@ -107,6 +107,84 @@ Proof.
     destruct Hx as [<-|Hx]; [left; reflexivity|right; apply (IH t x eq_refl Hx)].
 Qed.
 
+(* ---- the identifiers of task instances ---- *)
+Lemma dict_get_set_ident : forall (V : Type) u u' (d : V) l,
+    dict_get ident_eqb u (dict_set ident_eqb u' d l) = if ident_eqb u u' then Some d else dict_get ident_eqb u l.
+Proof.
+  intros V u u' d. induction l as [|[k v] r IH]; cbn [dict_set dict_get]; [reflexivity|].
+  destruct (ident_eqb u' k) eqn:E; cbn [dict_get].
+  - apply ident_eqb_eq in E. subst k. destruct (ident_eqb u u'); reflexivity.
+  - rewrite IH. destruct (ident_eqb u k) eqn:E2; [|reflexivity].
+    apply ident_eqb_eq in E2. subst k. destruct (ident_eqb u u') eqn:E3; [|reflexivity].
+    apply ident_eqb_eq in E3. subst u'. rewrite ident_eqb_refl in E. discriminate E.
+Qed.
+
+(* the keys of the counters store are identifiers of task instances that have started; a task's
+   record carries a test identifier below the task counter (the production task's record is
+   generated with identifier 0); two task records never carry the same test identifier *)
+Definition UQ (ns : NS) : Prop :=
+  (forall u d, dict_get ident_eqb u (ns_counters ns) = Some d -> exists i, u = ITest i /\ i < ns_tid ns) /\
+  (forall k a i, nth_error (ns_apis ns) k = Some a -> a_is_task a = true -> a_uuid a = ITest i ->
+                 i < ns_tid ns \/ (k = 0 /\ i = 0)) /\
+  (forall k1 k2 a1 a2 i, nth_error (ns_apis ns) k1 = Some a1 -> nth_error (ns_apis ns) k2 = Some a2 ->
+                         a_is_task a1 = true -> a_is_task a2 = true -> a_uuid a1 = ITest i -> a_uuid a2 = ITest i -> k1 = k2).
+
+Lemma UQ_eq : forall a b, UQ a -> ns_counters b = ns_counters a -> ns_apis b = ns_apis a -> ns_tid b = ns_tid a -> UQ b.
+Proof. intros a b (U1 & U2 & U3) E1 E2 E3. unfold UQ. rewrite E1, E2, E3. auto. Qed.
+
+Lemma UQ_svc : forall a b k u ak, UQ a -> ns_counters b = ns_counters a -> ns_tid b = ns_tid a ->
+    nth_error (ns_apis a) k = Some ak -> a_is_task ak = false -> ns_apis b = upd k (with_uuid u) (ns_apis a) -> UQ b.
+Proof.
+  intros a b k u ak (U1 & U2 & U3) E1 E3 Hk Ht E2. unfold UQ. rewrite E1, E2, E3.
+  assert (G : forall j x, nth_error (upd k (with_uuid u) (ns_apis a)) j = Some x -> a_is_task x = true ->
+                          nth_error (ns_apis a) j = Some x).
+  { intros j x Hj Hx. destruct (Nat.eq_dec j k) as [->|Hne].
+    - rewrite (nth_error_upd_eq _ _ _ _ _ Hk) in Hj. inversion Hj; subst x. cbn [with_uuid a_is_task] in Hx. congruence.
+    - rewrite nth_error_upd_neq in Hj by congruence. exact Hj. }
+  split; [exact U1|]. split.
+  - intros j x i Hj Hx Hu. apply (U2 j x i (G j x Hj Hx) Hx Hu).
+  - intros k1 k2 a1 a2 i H1 H2 T1 T2 X1 X2. apply (U3 k1 k2 a1 a2 i (G _ _ H1 T1) (G _ _ H2 T2) T1 T2 X1 X2).
+Qed.
+
+Lemma UQ_task : forall a b k ak, UQ a -> ns_counters b = ns_counters a -> ns_tid b = S (ns_tid a) ->
+    nth_error (ns_apis a) k = Some ak -> ns_apis b = upd k (with_uuid (ITest (ns_tid a))) (ns_apis a) ->
+    (k = 0 \/ 0 < ns_tid a) -> UQ b.
+Proof.
+  intros a b k ak (U1 & U2 & U3) E1 E3 Hk E2 Hpos. unfold UQ. rewrite E1, E2, E3.
+  assert (G : forall j x, j <> k -> nth_error (upd k (with_uuid (ITest (ns_tid a))) (ns_apis a)) j = Some x ->
+                          nth_error (ns_apis a) j = Some x).
+  { intros j x Hne Hj. rewrite nth_error_upd_neq in Hj by congruence. exact Hj. }
+  assert (K : forall x, nth_error (upd k (with_uuid (ITest (ns_tid a))) (ns_apis a)) k = Some x -> a_uuid x = ITest (ns_tid a)).
+  { intros x Hx. rewrite (nth_error_upd_eq _ _ _ _ _ Hk) in Hx. inversion Hx; subst x. reflexivity. }
+  assert (F : forall j x, j <> k -> nth_error (ns_apis a) j = Some x -> a_is_task x = true -> a_uuid x <> ITest (ns_tid a)).
+  { intros j x Hne Hj Hx Hu. destruct (U2 j x _ Hj Hx Hu) as [Hlt|[-> Hz]]; [lia|]. destruct Hpos as [->|Hp]; [congruence|lia]. }
+  split; [intros u d Hd; destruct (U1 u d Hd) as (i & -> & Hi); exists i; split; [reflexivity|lia]|]. split.
+  - intros j x i Hj Hx Hu. destruct (Nat.eq_dec j k) as [->|Hne].
+    + rewrite (K x Hj) in Hu. inversion Hu; subst i. left. lia.
+    + destruct (U2 j x i (G j x Hne Hj) Hx Hu) as [Hlt|Hz]; [left; lia|right; exact Hz].
+  - intros k1 k2 a1 a2 i H1 H2 T1 T2 X1 X2.
+    destruct (Nat.eq_dec k1 k) as [->|N1]; destruct (Nat.eq_dec k2 k) as [->|N2]; [reflexivity| | |].
+    + exfalso. rewrite (K a1 H1) in X1. inversion X1; subst i. apply (F k2 a2 N2 (G _ _ N2 H2) T2 X2).
+    + exfalso. rewrite (K a2 H2) in X2. inversion X2; subst i. apply (F k1 a1 N1 (G _ _ N1 H1) T1 X1).
+    + apply (U3 k1 k2 a1 a2 i (G _ _ N1 H1) (G _ _ N2 H2) T1 T2 X1 X2).
+Qed.
+
+Lemma UQ_cnt : forall a b cid d, UQ a -> ns_counters b = dict_set ident_eqb (ITest cid) d (ns_counters a) ->
+    ns_apis b = ns_apis a -> ns_tid b = ns_tid a -> cid < ns_tid a -> UQ b.
+Proof.
+  intros a b cid d (U1 & U2 & U3) E1 E2 E3 Hc. unfold UQ. rewrite E1, E2, E3. split; [|split; assumption].
+  intros u d0 Hd. rewrite dict_get_set_ident in Hd. destruct (ident_eqb u (ITest cid)) eqn:E.
+  - apply ident_eqb_eq in E. subst u. exists cid. split; [reflexivity|exact Hc].
+  - apply (U1 u d0 Hd).
+Qed.
+
+(* a task instance that starts has no counters yet *)
+Lemma UQ_fresh : forall ns, UQ ns -> counters_of (ITest (ns_tid ns)) ns = [].
+Proof.
+  intros ns (U1 & _). unfold counters_of. destruct (dict_get ident_eqb (ITest (ns_tid ns)) (ns_counters ns)) as [d|] eqn:E; [|reflexivity].
+  destruct (U1 _ _ E) as (i & Hi & Hlt). inversion Hi; subst i. lia.
+Qed.
+
 Section Sim.
   Variable NC : bool.
   Variable tasks : list task.
@@ -133,7 +211,7 @@ Section Sim.
     iv_ls : ls_ok (ns_ls ns) /\ (IM = true -> listeners_of SS (ns_ls ns) = [0] /\ ns_obs ns = []) /\
             (forall i, In (EvFinish (ITest i)) (ns_awaited ns) -> i < ns_sid ns) /\
             (forall i, In (ITest i) (ns_pending ns) -> i < ns_sid ns);
-    iv_cnt : cnts_plain (ns_counters ns) /\ (NC = true -> ns_counters ns = []);
+    iv_cnt : (cnts_plain (ns_counters ns) /\ (NC = true -> ns_counters ns = [])) /\ UQ ns;
     iv_start : ns_start_place ns = 0;
     iv_final : ns_final_place ns = 1;
     iv_npl : List.length (ns_places ns) = List.length (ns_places N0);
@@ -215,7 +293,7 @@ Section Sim.
 
   Lemma inv_sub_ok : forall ns a, Inv ns -> NC || idxfree (a_src a) = true -> sub_ok ns a.
   Proof.
-    intros ns a Hinv H ci c d _ _ Hd. destruct (iv_cnt _ Hinv) as [Hp Hn]. split; [apply (cnts_plain_get _ _ _ Hp Hd)|].
+    intros ns a Hinv H ci c d _ _ Hd. destruct (proj1 (iv_cnt _ Hinv)) as [Hp Hn]. split; [apply (cnts_plain_get _ _ _ Hp Hd)|].
     destruct NC; [rewrite (Hn eq_refl) in Hd; discriminate Hd|]. right. exact H.
   Qed.
   Lemma subst_params_ok : forall ie ins, (NC = true -> ie = []) -> NC || idxfree ins = true -> subst_params ie ins = ins.
@@ -242,7 +320,7 @@ Section Sim.
   Qed.
 
   Definition ctx_is (ns : NS) (ctx cid : nat) : Prop :=
-    exists ac, nth_error (ns_apis ns) ctx = Some ac /\ a_uuid ac = ITest cid.
+    exists ac, nth_error (ns_apis ns) ctx = Some ac /\ (a_uuid ac = ITest cid /\ a_is_task ac = true /\ cid < ns_tid ns).
 
   (* ---- starting a service ---- *)
   Lemma with_uuid_uuid : forall u v a, with_uuid v (with_uuid u a) = with_uuid v a.
@@ -284,7 +362,7 @@ Section Sim.
       ns_place_dict ns' = (ITest (g_sid g), fin) :: ns_place_dict ns /\
       ns_counters ns' = ns_counters ns.
   Proof.
-    intros ie il u n at_ ins ctx cid a fin g id g' ns pend H Hie Hidx Hinv Hgr Ha Hd (ac & Hac & Huc) Hne ns'.
+    intros ie il u n at_ ins ctx cid a fin g id g' ns pend H Hie Hidx Hinv Hgr Ha Hd (ac & Hac & Huc & Htk & Hct) Hne ns'.
     pose proof (inv_sub_ok ns (with_uuid u (svc_api il n at_ ins ctx a)) Hinv Hidx) as Hsub.
     destruct Hinv as [I1 I2 I3 I4 I5 I6 I7 I8 I9 (d & Id & Ik) I11].
     destruct Hgr as [G1 G2 G3 G4 G5 G6 G7 G8 G9 G10].
@@ -326,6 +404,9 @@ Section Sim.
         rewrite nf_awaited, nf_pending, E_sid, E_aw, E_pend. unfold pend_after. cbn [with_uuid a_uuid]. split.
         * intros i Hi. apply in_app_or in Hi. destruct Hi as [Hi|[Hi|[]]]; [specialize (C4 i Hi); lia|inversion Hi; lia].
         * intros i Hi. apply in_app_or in Hi. destruct Hi as [Hi|[Hi|[]]]; [specialize (D4 i Hi); lia|inversion Hi; lia].
+      + split; [exact (proj1 I5)|].
+        eapply (UQ_svc ns _ a (ITest (ns_sid ns)) _ (proj2 I5)); rewrite ?nf_counters, ?nf_tid, ?nf_apis;
+          [exact E_cn|exact E_tid|exact Ha|reflexivity|exact E_apis].
       + rewrite E_apis, upd_length. exact I9.
       + rewrite E_dict, E_sid.
         exists ((ITest (ns_sid ns), fin) :: d). split; [rewrite Id; reflexivity|].
@@ -375,7 +456,7 @@ Section Sim.
       ctx_uuid_nat ns' oc = ocid.
   Proof.
     intros ns ns' a [c|] [cid|] H Hsame; cbn [octx_is] in H; try contradiction; [|reflexivity].
-    destruct H as [(ac & Hac & Hu) Hne]. unfold ctx_uuid_nat. rewrite Hsame by exact Hne. rewrite Hac, Hu. reflexivity.
+    destruct H as [(ac & Hac & Hu & _) Hne]. unfold ctx_uuid_nat. rewrite Hsame by exact Hne. rewrite Hac, Hu. reflexivity.
   Qed.
 
   (* the reference bookkeeping after one more log entry; [tid'] / [run'] the new values *)
@@ -389,7 +470,7 @@ Section Sim.
       Inv ns -> GR g ns pend ->
       nth_error (ns_apis ns) a = Some a0 -> a_params a0 = a_src a0 -> a_is_task a0 = true ->
       NC || idxfree (a_src a0) = true ->
-      octx_is ns a (a_ctx a0) ocid ->
+      octx_is ns a (a_ctx a0) ocid -> (a = 0 \/ 0 < ns_tid ns) ->
       g_step g g1 (mk TS (a_name a0) (a_site a0) (g_tid g) ocid (a_params a0)) false
              (S (g_tid g)) (g_running g) ->
       let ns' := notified TS (with_uuid (ITest (ns_tid ns)) a0) false (ts_pre a ns) in
@@ -398,7 +479,7 @@ Section Sim.
       ns_apis ns' = upd a (with_uuid (ITest (g_tid g))) (ns_apis ns) /\
       ns_place_dict ns' = ns_place_dict ns /\ ns_counters ns' = ns_counters ns.
   Proof.
-    intros a a0 ocid g g1 ns pend Hinv Hgr Ha Hl Htask Hidx Hc (S1 & S2 & S3 & S4 & S5 & S6 & S7 & S8 & S9) ns'.
+    intros a a0 ocid g g1 ns pend Hinv Hgr Ha Hl Htask Hidx Hc Hpos (S1 & S2 & S3 & S4 & S5 & S6 & S7 & S8 & S9) ns'.
     pose proof (inv_sub_ok ns a0 Hinv Hidx) as Hsub.
     destruct Hinv as [I1 I2 I3 I4 I5 I6 I7 I8 I9 (d & Id & Ik) I11]. pose proof (proj1 I4) as I4l.
     destruct Hgr as [G1 G2 G3 G4 G5 G6 G7 G8 G9 G10].
@@ -412,6 +493,8 @@ Section Sim.
     split; [|split; [|split; [|split]]].
     - constructor; rewrite ?nf_trans, ?nf_cbs, ?nf_test_ids, ?nf_ls, ?nf_obs, ?nf_start_place, ?nf_final_place,
                    ?nf_places, ?nf_apis, ?nf_place_dict, ?nf_sid, ?nf_counters; try assumption.
+      + split; [exact (proj1 I5)|].
+        eapply (UQ_task ns _ a a0 (proj2 I5)); rewrite ?nf_counters, ?nf_tid, ?nf_apis; [reflexivity|reflexivity|exact Ha|reflexivity|exact Hpos].
       + change (ns_apis (ts_pre a ns)) with (upd a (with_uuid (ITest (ns_tid ns))) (ns_apis ns)).
         rewrite upd_length. exact I9.
       + exists d. split; [exact Id|exact Ik].
@@ -482,6 +565,7 @@ Section Sim.
           try (exfalso; destruct Hk as [E|E]; discriminate E).
         destruct (remove_first (ident_eqb (a_uuid a1)) (ns_pending ns)) as [t|] eqn:Er; [|exact Hi].
         apply (remove_first_sub _ _ _ _ _ Er Hi).
+      + split; [exact (proj1 I5)|apply (UQ_eq _ _ (proj2 I5)); rewrite ?nf_counters, ?nf_apis, ?nf_tid; reflexivity].
       + exists d. split; [exact Id|exact Ik].
     - constructor; rewrite ?nf_tid, ?nf_sid, ?nf_nss, ?nf_running, ?nf_log, ?nf_awaited, ?nf_pending.
       + congruence.
@@ -701,30 +785,53 @@ Section Sim.
   (* =========================================================================== *)
   (* delivering a completion                                                      *)
   (* =========================================================================== *)
-  Record Frame (ns ns' : NS) (lo hi : nat) : Prop := {
+  (* what a start / a delivery in the context [ctx] leaves alone: the counters of every other
+     task instance whose record lies outside the component's own range of API records *)
+  Definition CF (ctx : nat) (a b : NS) (lo hi : nat) : Prop :=
+    forall k ac, ~ (lo <= k < hi) -> k <> ctx -> nth_error (ns_apis a) k = Some ac -> a_is_task ac = true ->
+                 counters_of (a_uuid ac) b = counters_of (a_uuid ac) a.
+  Lemma CF_same : forall ctx a b lo hi, ns_counters b = ns_counters a -> CF ctx a b lo hi.
+  Proof. intros ctx a b lo hi E k ac _ _ _ _. unfold counters_of. rewrite E. reflexivity. Qed.
+
+  Lemma CF_eq_r : forall ctx a b b' lo hi, CF ctx a b lo hi -> ns_counters b' = ns_counters b -> CF ctx a b' lo hi.
+  Proof. intros ctx a b b' lo hi H E k ac H1 H2 H3 H4. rewrite <- (H k ac H1 H2 H3 H4). unfold counters_of. rewrite E. reflexivity. Qed.
+
+  Record Frame (ctx : nat) (ns ns' : NS) (lo hi : nat) : Prop := {
     fr_apis : forall k, ~ (lo <= k < hi) -> nth_error (ns_apis ns') k = nth_error (ns_apis ns) k;
-    fr_sid : ns_sid ns <= ns_sid ns';
+    fr_sid : ns_sid ns <= ns_sid ns' /\ ns_tid ns <= ns_tid ns' /\ CF ctx ns ns' lo hi;
     fr_dict : exists d, ns_place_dict ns' = d ++ ns_place_dict ns /\
                         Forall (fun kv => exists i, fst kv = ITest i /\ ns_sid ns <= i) d
   }.
 
-  Lemma Frame_refl : forall ns lo hi, Frame ns ns lo hi.
-  Proof. intros. constructor; [reflexivity|lia|exists []; split; [reflexivity|constructor]]. Qed.
-
-  Lemma Frame_trans : forall a b c lo hi lo1 hi1 lo2 hi2,
-      Frame a b lo1 hi1 -> Frame b c lo2 hi2 -> lo <= lo1 -> hi1 <= hi -> lo <= lo2 -> hi2 <= hi ->
-      Frame a c lo hi.
+  Lemma Frame_refl : forall ctx ns lo hi, Frame ctx ns ns lo hi.
   Proof.
-    intros a b c lo hi lo1 hi1 lo2 hi2 [A1 S1 (d1 & D1 & K1)] [A2 S2 (d2 & D2 & K2)] H1 H2 H3 H4.
-    constructor; [intros k Hk; rewrite A2 by lia; apply A1; lia|lia|].
+    intros. constructor; [reflexivity|split; [lia|split; [lia|apply CF_same; reflexivity]]|exists []; split; [reflexivity|constructor]].
+  Qed.
+
+  Lemma Frame_trans : forall ctx a b c lo hi lo1 hi1 lo2 hi2,
+      Frame ctx a b lo1 hi1 -> Frame ctx b c lo2 hi2 -> lo <= lo1 -> hi1 <= hi -> lo <= lo2 -> hi2 <= hi ->
+      Frame ctx a c lo hi.
+  Proof.
+    intros ctx a b c lo hi lo1 hi1 lo2 hi2 [A1 S1 (d1 & D1 & K1)] [A2 S2 (d2 & D2 & K2)] H1 H2 H3 H4.
+    constructor; [intros k Hk; rewrite A2 by lia; apply A1; lia| |].
+    { split; [lia|]. split; [lia|]. destruct S1 as (_ & _ & C1). destruct S2 as (_ & _ & C2).
+      intros k ac Hk Hc Ha Ht. rewrite (C2 k ac); [apply (C1 k ac); try assumption; lia|lia|exact Hc| |exact Ht].
+      rewrite A1 by lia. exact Ha. }
     exists (d2 ++ d1). split; [rewrite D2, D1, app_assoc; reflexivity|].
     apply Forall_app. split; [|exact K1].
     eapply Forall_impl; [|exact K2]. intros kv (i & E & Hi). exists i. split; [exact E|lia].
   Qed.
 
+  (* what happens in the context of a call, seen from the caller's context *)
+  Lemma Frame_ctx : forall c ctx a b lo hi LO HI, Frame c a b lo hi -> LO <= lo -> hi <= HI -> LO <= c < HI -> Frame ctx a b LO HI.
+  Proof.
+    intros c ctx a b lo hi LO HI [A (S1 & S2 & C) D] H1 H2 H3. constructor; [intros k Hk; apply A; lia| |exact D].
+    split; [exact S1|]. split; [exact S2|]. intros k ac Hk _. apply C; lia.
+  Qed.
+
   (* what holds after the net has processed (part of) a delivery *)
-  Definition Post (ns ns' : NS) (g g' : G) (pend0 : list nat) (lo hi : nat) : Prop :=
-    Inv ns' /\ Frame ns ns' lo hi /\
+  Definition Post (ctx : nat) (ns ns' : NS) (g g' : G) (pend0 : list nat) (lo hi : nat) : Prop :=
+    Inv ns' /\ Frame ctx ns ns' lo hi /\
     exists new, g_awaited g' = g_awaited g ++ new /\ GR g' ns' (pend0 ++ new).
 
   Definition agrees_in (lo hi : nat) (m m0 : list nat) : Prop := forall q, lo <= q < hi -> cnt m q = cnt m0 q.
@@ -855,11 +962,19 @@ Section Sim.
       destruct (IH (adv x (conn_skip bp)) i s s' H H') as (A & B & C). cbn [adv conn_skip pt] in A. lia.
   Qed.
 
-  Lemma Post_widen : forall ns ns' g g' pend0 lo hi LO HI,
-      Post ns ns' g g' pend0 lo hi -> LO <= lo -> hi <= HI -> Post ns ns' g g' pend0 LO HI.
+  Lemma Post_widen : forall ctx ns ns' g g' pend0 lo hi LO HI,
+      Post ctx ns ns' g g' pend0 lo hi -> LO <= lo -> hi <= HI -> Post ctx ns ns' g g' pend0 LO HI.
   Proof.
-    intros ns ns' g g' pend0 lo hi LO HI (I & F & N) H1 H2. split; [exact I|]. split; [|exact N].
-    destruct F as [A S D]. constructor; [intros k Hk; apply A; lia|exact S|exact D].
+    intros ctx ns ns' g g' pend0 lo hi LO HI (I & F & N) H1 H2. split; [exact I|]. split; [|exact N].
+    destruct F as [A (S1 & S2 & C) D]. constructor; [intros k Hk; apply A; lia| |exact D].
+    split; [exact S1|]. split; [exact S2|]. intros k ac Hk. apply C. lia.
+  Qed.
+
+  Lemma Post_ctx : forall c ctx ns ns' g g' pend0 lo hi LO HI,
+      Post c ns ns' g g' pend0 lo hi -> LO <= lo -> hi <= HI -> LO <= c < HI -> Post ctx ns ns' g g' pend0 LO HI.
+  Proof.
+    intros c ctx ns ns' g g' pend0 lo hi LO HI (I & F & N) H1 H2 H3. split; [exact I|]. split; [|exact N].
+    apply (Frame_ctx c ctx ns ns' lo hi LO HI F H1 H2 H3).
   Qed.
 
   Lemma agrees_in_widen : forall lo hi LO HI m m' ml',
@@ -955,11 +1070,11 @@ Section Sim.
   Proof. intros j s [I1 I2 I3 I4 I5 I6 I7 I8 I9 I10 I11]. constructor; assumption. Qed.
   Lemma GR_bumpn : forall j g s pend, GR g s pend -> GR g (bumpn j s) pend.
   Proof. intros j g s pend [G1 G2 G3 G4 G5 G6 G7 G8 G9 G10]. constructor; assumption. Qed.
-  Lemma Frame_bumpn : forall j a b lo hi, Frame a b lo hi -> Frame a (bumpn j b) lo hi.
-  Proof. intros j a b lo hi [A S D]. constructor; assumption. Qed.
-  Lemma Post_bumpn : forall j ns ns' g g' pend0 lo hi, Post ns ns' g g' pend0 lo hi -> Post ns (bumpn j ns') g g' pend0 lo hi.
+  Lemma Frame_bumpn : forall ctx j a b lo hi, Frame ctx a b lo hi -> Frame ctx a (bumpn j b) lo hi.
+  Proof. intros ctx j a b lo hi [A S D]. constructor; assumption. Qed.
+  Lemma Post_bumpn : forall ctx j ns ns' g g' pend0 lo hi, Post ctx ns ns' g g' pend0 lo hi -> Post ctx ns (bumpn j ns') g g' pend0 lo hi.
   Proof.
-    intros j ns ns' g g' pend0 lo hi (I & F & new & A & G). split; [apply Inv_bumpn; exact I|].
+    intros ctx j ns ns' g g' pend0 lo hi (I & F & new & A & G). split; [apply Inv_bumpn; exact I|].
     split; [apply Frame_bumpn; exact F|]. exists new. split; [exact A|apply GR_bumpn; exact G].
   Qed.
   Lemma UnwE_nest : forall ms2 m2 ms (X : list (list cb)), UnwE ms2 ((marks m2 ++ []) :: UnwE ms X) = UnwE (ms2 ++ m2 :: ms) X.
@@ -1007,80 +1122,117 @@ Section Sim.
     cbn [app dict_get]. cbn [fst] in E. subst u. cbn [ident_eqb]. apply IH. exact Hr.
   Qed.
 
-  Definition StartRes (ns ns' : NS) (g g' : G) (pend ids : list nat) (p : pos) (da : nat) : Prop :=
+  Definition StartRes (ctx : nat) (ns ns' : NS) (g g' : G) (pend ids : list nat) (p : pos) (da : nat) : Prop :=
     Inv ns' /\ GR g' ns' (pend ++ ids) /\
     (forall k, ~ (pa p <= k < pa p + da) -> nth_error (ns_apis ns') k = nth_error (ns_apis ns) k) /\
-    g_awaited g' = g_awaited g ++ ids /\ g_sid g <= g_sid g' /\
+    g_awaited g' = g_awaited g ++ ids /\ (g_sid g <= g_sid g' /\ g_tid g <= g_tid g' /\ CF ctx ns ns' (pa p) (pa p + da)) /\
     (exists d, ns_place_dict ns' = d ++ ns_place_dict ns /\
                Forall (fun kv => exists i, fst kv = ITest i /\ ns_sid ns <= i) d).
 
-  Lemma StartRes_trans : forall ns ns1 ns2 g g1 g2 pend ids1 ids2 p da p1 da1 p2 da2,
+  Lemma StartRes_trans : forall ctx ns ns1 ns2 g g1 g2 pend ids1 ids2 p da p1 da1 p2 da2,
       GR g ns pend ->
-      StartRes ns ns1 g g1 pend ids1 p1 da1 -> StartRes ns1 ns2 g1 g2 (pend ++ ids1) ids2 p2 da2 ->
+      StartRes ctx ns ns1 g g1 pend ids1 p1 da1 -> StartRes ctx ns1 ns2 g1 g2 (pend ++ ids1) ids2 p2 da2 ->
       pa p <= pa p1 -> pa p1 + da1 <= pa p + da -> pa p <= pa p2 -> pa p2 + da2 <= pa p + da ->
-      StartRes ns ns2 g g2 pend (ids1 ++ ids2) p da.
+      StartRes ctx ns ns2 g g2 pend (ids1 ++ ids2) p da.
   Proof.
-    intros ns ns1 ns2 g g1 g2 pend ids1 ids2 p da p1 da1 p2 da2 Hgr
+    intros ctx ns ns1 ns2 g g1 g2 pend ids1 ids2 p da p1 da1 p2 da2 Hgr
            (I1 & G1 & A1 & W1 & S1 & (d1 & D1 & K1)) (I2 & G2 & A2 & W2 & S2 & (d2 & D2 & K2)) R1 R2 R3 R4.
     split; [exact I2|]. split; [rewrite app_assoc; exact G2|].
     split; [intros k Hk; rewrite A2 by lia; apply A1; lia|].
-    split; [rewrite W2, W1, app_assoc; reflexivity|]. split; [lia|].
+    split; [rewrite W2, W1, app_assoc; reflexivity|]. split.
+    { split; [lia|]. split; [lia|]. destruct S1 as (_ & _ & C1). destruct S2 as (_ & _ & C2).
+      intros k ac Hk Hc Ha Ht. rewrite (C2 k ac); [apply (C1 k ac); try assumption; lia|lia|exact Hc| |exact Ht].
+      rewrite A1 by lia. exact Ha. }
     exists (d2 ++ d1). split; [rewrite D2, D1, app_assoc; reflexivity|].
     apply Forall_app. split; [|exact K1].
     eapply Forall_impl; [|exact K2]. intros kv (i & E & Hi). exists i. split; [exact E|].
     pose proof (gr_sid _ _ _ G1). pose proof (gr_sid _ _ _ Hgr). lia.
   Qed.
 
-  Lemma StartRes_bumpn : forall j ns ns' g g' pend ids p da,
-      StartRes ns ns' g g' pend ids p da -> StartRes ns (bumpn j ns') g g' pend ids p da.
+  Lemma StartRes_bumpn : forall ctx j ns ns' g g' pend ids p da,
+      StartRes ctx ns ns' g g' pend ids p da -> StartRes ctx ns (bumpn j ns') g g' pend ids p da.
   Proof.
-    intros j ns ns' g g' pend ids p da (I & G & A & W & S & D). split; [apply Inv_bumpn; exact I|].
+    intros ctx j ns ns' g g' pend ids p da (I & G & A & W & S & D). split; [apply Inv_bumpn; exact I|].
     split; [apply GR_bumpn; exact G|]. split; [exact A|]. split; [exact W|]. split; [exact S|exact D].
   Qed.
-  Lemma StartRes_if : forall (d : bool) j ns ns' g g' pend ids p da,
-      StartRes ns ns' g g' pend ids p da -> StartRes ns (if d then ns' else bumpn j ns') g g' pend ids p da.
-  Proof. intros [] j ns ns' g g' pend ids p da H; [exact H|apply StartRes_bumpn; exact H]. Qed.
+  Lemma StartRes_if : forall ctx (d : bool) j ns ns' g g' pend ids p da,
+      StartRes ctx ns ns' g g' pend ids p da -> StartRes ctx ns (if d then ns' else bumpn j ns') g g' pend ids p da.
+  Proof. intros ctx [] j ns ns' g g' pend ids p da H; [exact H|apply StartRes_bumpn; exact H]. Qed.
 
-  Lemma StartRes_widen : forall ns ns' g g' pend ids p da p1 da1,
-      StartRes ns ns' g g' pend ids p1 da1 -> pa p <= pa p1 -> pa p1 + da1 <= pa p + da ->
-      StartRes ns ns' g g' pend ids p da.
+  Lemma StartRes_widen : forall ctx ns ns' g g' pend ids p da p1 da1,
+      StartRes ctx ns ns' g g' pend ids p1 da1 -> pa p <= pa p1 -> pa p1 + da1 <= pa p + da ->
+      StartRes ctx ns ns' g g' pend ids p da.
   Proof.
-    intros ns ns' g g' pend ids p da p1 da1 (I1 & G1 & A1 & W1 & S1 & D1) R1 R2.
+    intros ctx ns ns' g g' pend ids p da p1 da1 (I1 & G1 & A1 & W1 & (S1 & S2 & C) & D1) R1 R2.
     split; [exact I1|]. split; [exact G1|]. split; [intros k Hk; apply A1; lia|].
-    split; [exact W1|]. split; [exact S1|exact D1].
+    split; [exact W1|]. split; [|exact D1]. split; [exact S1|]. split; [exact S2|]. intros k ac Hk. apply C. lia.
   Qed.
 
-  Lemma Frame_fire : forall a tr lo, Frame a (fire_ns tr a) lo lo.
-  Proof. intros. constructor; [reflexivity|apply Nat.le_refl|exists []; split; [reflexivity|constructor]]. Qed.
-
-  Lemma Frame_of_StartRes : forall a b g g' pend ids p da,
-      GR g a pend -> StartRes a b g g' pend ids p da -> Frame a b (pa p) (pa p + da).
+  Lemma Frame_fire : forall ctx a tr lo, Frame ctx a (fire_ns tr a) lo lo.
   Proof.
-    intros a b g g' pend ids p da Hg (I & G & A & W & S & D). constructor; [exact A| |exact D].
-    rewrite (gr_sid _ _ _ Hg), (gr_sid _ _ _ G). exact S.
+    intros. constructor; [reflexivity|split; [apply Nat.le_refl|split; [apply Nat.le_refl|apply CF_same; reflexivity]]|
+                          exists []; split; [reflexivity|constructor]].
   Qed.
 
-  Lemma ctx_is_frame : forall a b ctx cid lo hi, ctx_is a ctx cid -> Frame a b lo hi -> ctx < lo -> ctx_is b ctx cid.
+  Lemma Frame_of_StartRes : forall ctx a b g g' pend ids p da,
+      GR g a pend -> StartRes ctx a b g g' pend ids p da -> Frame ctx a b (pa p) (pa p + da).
   Proof.
-    intros a b ctx cid lo hi (ac & H1 & H2) F Hlt. exists ac. split; [|exact H2].
-    rewrite (fr_apis _ _ _ _ F) by lia. exact H1.
+    intros ctx a b g g' pend ids p da Hg (I & G & A & W & S & D). constructor; [exact A| |exact D].
+    rewrite (gr_sid _ _ _ Hg), (gr_sid _ _ _ G), (gr_tid _ _ _ Hg), (gr_tid _ _ _ G). exact S.
   Qed.
+
+  Lemma ctx_is_frame : forall c a b ctx cid lo hi, ctx_is a ctx cid -> Frame c a b lo hi -> ctx < lo -> ctx_is b ctx cid.
+  Proof.
+    intros c a b ctx cid lo hi (ac & H1 & H2 & H3 & H4) F Hlt. exists ac. split; [rewrite (fr_apis _ _ _ _ _ F) by lia; exact H1|].
+    split; [exact H2|]. split; [exact H3|]. pose proof (fr_sid _ _ _ _ _ F). lia.
+  Qed.
+
+  Lemma ctx_is_same : forall a b ctx cid, ctx_is a ctx cid ->
+      nth_error (ns_apis b) ctx = nth_error (ns_apis a) ctx -> ns_tid a <= ns_tid b -> ctx_is b ctx cid.
+  Proof.
+    intros a b ctx cid (ac & H1 & H2 & H3 & H4) E Ht. exists ac. split; [rewrite E; exact H1|].
+    split; [exact H2|]. split; [exact H3|lia].
+  Qed.
+  Lemma ctx_is_start : forall c a b g g' pend ids p da ctx cid,
+      GR g a pend -> StartRes c a b g g' pend ids p da -> ctx_is a ctx cid -> ctx < pa p -> ctx_is b ctx cid.
+  Proof.
+    intros c a b g g' pend ids p da ctx cid Hg Hr Hc Hlt.
+    apply (ctx_is_frame c a b ctx cid _ _ Hc (Frame_of_StartRes _ _ _ _ _ _ _ _ _ Hg Hr) Hlt).
+  Qed.
+  Lemma ctx_is_tid : forall ns ctx cid, ctx_is ns ctx cid -> cid < ns_tid ns.
+  Proof. intros ns ctx cid (ac & _ & _ & _ & H). exact H. Qed.
 
   (* ---- the loop counters: what the lemmas below assume about the context of a component ---- *)
   Record CX (ns : NS) (ctx cid : nat) (ie : ienv) (kl : list (site * nat)) (rt : bool) (p : pos) : Prop := {
-    cx_c0 : C0 ns kl;
+    cx_c0 : C0 ns cid kl;
     cx_ie : NC = true -> ie = [];
-    cx_rt : rt = true -> ctx = 0 /\ cid = 0 /\ klb kl p
+    cx_rt : klb kl p
   }.
   Lemma CX_pos : forall ns ns' ctx cid ie kl rt p q,
-      CX ns ctx cid ie kl rt p -> C0 ns' kl -> List.length (s_pre (psi p)) <= List.length (s_pre (psi q)) ->
+      CX ns ctx cid ie kl rt p -> C0 ns' cid kl -> List.length (s_pre (psi p)) <= List.length (s_pre (psi q)) ->
       CX ns' ctx cid ie kl rt q.
   Proof.
     intros ns ns' ctx cid ie kl rt p q [H1 H2 H3] Hc Hle. constructor; [exact Hc|exact H2|].
-    intro Hr. destruct (H3 Hr) as (A & B & C). split; [exact A|]. split; [exact B|]. eapply klb_sub; eassumption.
+    eapply klb_sub; eassumption.
   Qed.
-  Lemma C0_same : forall ns ns' kl, ns_counters ns' = ns_counters ns -> C0 ns kl -> C0 ns' kl.
-  Proof. intros ns ns' kl E H. unfold C0, counters_of in *. rewrite E. exact H. Qed.
+  Lemma C0_same : forall ns ns' cid kl, ns_counters ns' = ns_counters ns -> C0 ns cid kl -> C0 ns' cid kl.
+  Proof. intros ns ns' cid kl E H. unfold C0, counters_of in *. rewrite E. exact H. Qed.
+  (* the counters of the context survive whatever happens in another context *)
+  Lemma C0_frame : forall c a b ctx cid kl lo hi,
+      ctx_is a ctx cid -> Frame c a b lo hi -> ~ (lo <= ctx < hi) -> ctx <> c -> C0 a cid kl -> C0 b cid kl.
+  Proof.
+    intros c a b ctx cid kl lo hi (ac & H1 & H2 & H3 & _) F Hr Hne H. destruct (fr_sid _ _ _ _ _ F) as (_ & _ & C).
+    unfold C0 in *. rewrite <- H2, (C ctx ac Hr Hne H1 H3), H2. exact H.
+  Qed.
+
+  (* a callback in the context [ctx] that rewrites the counters of [ctx] only *)
+  Lemma CF_other : forall ns b ctx cid lo hi, UQ ns -> ctx_is ns ctx cid ->
+      (forall u, u <> ITest cid -> dict_get ident_eqb u (ns_counters b) = dict_get ident_eqb u (ns_counters ns)) ->
+      CF ctx ns b lo hi.
+  Proof.
+    intros ns b ctx cid lo hi (_ & _ & U3) (ac & Hac & Huc & Htk & _) H k ac0 _ Hne Hk Ht.
+    unfold counters_of. rewrite H; [reflexivity|]. intro E. apply Hne. apply (U3 k ctx ac0 ac cid Hk Hac Ht Htk E Huc).
+  Qed.
 
   (* the start callbacks of a component, run in order after the entering transition has fired
      (the entry places hold their tokens; everything around the component is blocked): the
@@ -1100,8 +1252,8 @@ Section Sim.
       exists ns' m', Enters (startcbs s p ctx) ns ns' (is_done st) xcbs /\
                      Marks ns' m' /\ agrees_in (pp p) (pp p + nplaces s) m' (mlx st s p) /\
                      agrees_out (pp p) (pp p + nplaces s) m m' /\
-                     StartRes ns ns' g g' pend (svc_ids st) p (napis s) /\
-                     (act N0 ns' st s p ctx /\ C0 ns' (rch st s p kl)).
+                     StartRes ctx ns ns' g g' pend (svc_ids st) p (napis s) /\
+                     (act N0 ns' st s p ctx /\ C0 ns' cid (rch st s p kl)).
 
   Lemma del_svc_case : forall f ie n at_ ins p ctx cid xcbs t2 id' id g st' g' ns m pend pend0 finp,
       deliver orc imm (S f) cid ie (XService n at_ ins) (RAwait id') id g = Ok (Some st', g') ->
@@ -1119,7 +1271,7 @@ Section Sim.
         (forall j, j < nT -> j <> pt p -> dis m j) /\
         RunList [CbSF (pa p)] (fire_ns tr ns) ns' /\
         Marks ns' m' /\ agrees_in (pp p) (pp p + 3) m' [pp p + 2] /\ agrees_out (pp p) (pp p + 3) m m' /\
-        Post ns ns' g g' pend0 (pa p) (pa p + 1) /\ ns_counters ns' = ns_counters ns.
+        Post ctx ns ns' g g' pend0 (pa p) (pa p + 1) /\ ns_counters ns' = ns_counters ns.
   Proof.
     intros f ie n at_ ins p ctx cid xcbs t2 id' id g st' g' ns m pend pend0 finp
            H Hie Hidx Hw HP HT Ht2 Hne2 Hx2 Hinv Hgr Hrem Hact Hctx Hlt Hm Hd Hin Hout.
@@ -1167,7 +1319,7 @@ Section Sim.
     split; [intros q Hq; unfold m'; cnt_cases|].
     split; [|rewrite nf_counters; reflexivity].
     split; [exact Hinv'|]. split.
-    - constructor; [intros k _; rewrite Hap; reflexivity|rewrite nf_sid; apply Nat.le_refl|].
+    - constructor; [intros k _; rewrite Hap; reflexivity|rewrite nf_sid, nf_tid; split; [apply Nat.le_refl|split; [apply Nat.le_refl|apply CF_same; rewrite nf_counters; reflexivity]]|].
       exists []. split; [rewrite Hdi; reflexivity|constructor].
     - exists []. split; [rewrite <- E2, app_nil_r; reflexivity|rewrite app_nil_r; exact Hgr'].
   Qed.
@@ -1187,13 +1339,14 @@ Section Sim.
       ns_obs b = ns_obs a -> ns_counters b = ns_counters a ->
       ns_start_place b = ns_start_place a -> ns_final_place b = ns_final_place a ->
       List.length (ns_places b) = List.length (ns_places a) ->
-      ns_apis b = ns_apis a -> ns_place_dict b = ns_place_dict a -> ns_sid b = ns_sid a ->
+      ns_apis b = ns_apis a -> ns_place_dict b = ns_place_dict a -> ns_sid b = ns_sid a -> ns_tid b = ns_tid a ->
       (forall e, In e (ns_awaited b) -> In e (ns_awaited a)) -> (forall e, In e (ns_pending b) -> In e (ns_pending a)) -> Inv b.
   Proof.
-    intros a b [I1 I2 I3 I4 I5 I6 I7 I8 I9 I10 I11] E1 E2 E3 E4 E5 E6 E7 E8 E9 E10 E11 E12 Haw Hpe.
+    intros a b [I1 I2 I3 I4 I5 I6 I7 I8 I9 I10 I11] E1 E2 E3 E4 E5 E6 E7 E8 E9 E10 E11 E12 E13 Haw Hpe.
     constructor; rewrite ?E1, ?E2, ?E3, ?E4, ?E5, ?E6, ?E7, ?E8, ?E9, ?E10, ?E11, ?E12; try assumption.
-    destruct I4 as (A & B & C & D). split; [exact A|]. split; [exact B|].
-    split; [intros i Hi; apply C; apply Haw; exact Hi|intros i Hi; apply D; apply Hpe; exact Hi].
+    - destruct I4 as (A & B & C & D). split; [exact A|]. split; [exact B|].
+      split; [intros i Hi; apply C; apply Haw; exact Hi|intros i Hi; apply D; apply Hpe; exact Hi].
+    - split; [exact (proj1 I5)|apply (UQ_eq _ _ (proj2 I5)); assumption].
   Qed.
 
   Lemma start_svc_case : forall f n at_ ins p ctx cid ie kl rt xcbs t2 g st g' ns m pend,
@@ -1207,8 +1360,8 @@ Section Sim.
       exists ns' m', Enters (startcbs (XService n at_ ins) p ctx) ns ns' (is_done st) xcbs /\
                      Marks ns' m' /\ agrees_in (pp p) (pp p + 3) m' (mlx st (XService n at_ ins) p) /\
                      agrees_out (pp p) (pp p + 3) m m' /\
-                     StartRes ns ns' g g' pend (svc_ids st) p 1 /\
-                     (act N0 ns' st (XService n at_ ins) p ctx /\ C0 ns' (rch st (XService n at_ ins) p kl)).
+                     StartRes ctx ns ns' g g' pend (svc_ids st) p 1 /\
+                     (act N0 ns' st (XService n at_ ins) p ctx /\ C0 ns' cid (rch st (XService n at_ ins) p kl)).
   Proof.
     intros f n at_ ins p ctx cid ie kl rt xcbs t2 g st g' ns m pend H Hsok Hcx Hw Hnp HP HT Ht2 Hne2 Hx2 Hinv Hgr Hctx Hlt Hm Hin HO.
     pose proof Hw as Hwall.
@@ -1222,6 +1375,8 @@ Section Sim.
     set (a' := with_uuid (ITest (ns_sid ns)) (svc_api il n at_ ins ctx (pa p))) in *.
     set (PRE := ss_st il (pa p) (pp p + 1) ns) in *.
     set (nsN := notified SS a' false PRE) in *.
+    assert (Etid : ns_tid nsN = ns_tid ns) by (unfold nsN; rewrite nf_tid; unfold PRE, ss_st; destruct il; reflexivity).
+    assert (Egt : g_tid g1 = g_tid g) by (rewrite <- (gr_tid _ _ _ Hgr'), <- (gr_tid _ _ _ Hgr); exact Etid).
     destruct (imm (g_ss g)) eqn:Ei.
     2:{ (* the service waits *)
       injection H as <- <-. specialize (Hrun eq_refl).
@@ -1233,10 +1388,10 @@ Section Sim.
       cbn [svc_ids]. split.
       - split; [exact Hinv'|]. split; [exact Hgr'|].
         split; [intros k Hk; rewrite Hap; apply nth_error_upd_neq; lia|].
-        split; [exact Haw|]. split; [lia|].
+        split; [exact Haw|]. split; [split; [lia|split; [lia|apply CF_same; exact Hcn]]|].
         exists [(ITest (g_sid g), pp p + 1)]. split; [rewrite Hdi; reflexivity|].
         constructor; [|constructor]. exists (g_sid g). split; [reflexivity|]. rewrite (gr_sid _ _ _ Hgr). lia.
-      - split; [|cbn [rch]; apply (C0_same ns _ kl Hcn (cx_c0 _ _ _ _ _ _ _ Hcx))].
+      - split; [|cbn [rch]; apply (C0_same ns _ cid kl Hcn (cx_c0 _ _ _ _ _ _ _ Hcx))].
         cbn [act]. split; [exists il; rewrite Hap, (nth_error_upd_eq _ _ _ _ _ Ha); reflexivity|].
         split; [rewrite Hdi; cbn [dict_get ident_eqb]; rewrite Nat.eqb_refl; reflexivity|].
         rewrite (gr_sid _ _ _ Hgr'), Hsid. lia. }
@@ -1291,8 +1446,9 @@ Section Sim.
     { cbn [act]. split; [exists il; unfold a' in Hapi2; rewrite Esid in Hapi2; exact Hapi2|]. split; [rewrite Hdi2; cbn [dict_get ident_eqb]; rewrite Nat.eqb_refl; reflexivity|].
       change (ns_sid s2) with (ns_sid (bump mid)). rewrite <- EN, (gr_sid _ _ _ Hgr'), Hsid. lia. }
     assert (Hctx2 : ctx_is s2 ctx cid).
-    { destruct Hctx as (ac & Hac & Huc). exists ac. split; [|exact Huc].
-      change (ns_apis s2) with (ns_apis (bump mid)). rewrite <- EN, Hap, nth_error_upd_neq by lia. exact Hac. }
+    { apply (ctx_is_same ns s2 ctx cid Hctx).
+      - change (ns_apis s2) with (ns_apis (bump mid)). rewrite <- EN, Hap, nth_error_upd_neq by lia. reflexivity.
+      - change (ns_tid s2) with (ns_tid (bump mid)). rewrite <- EN, Etid. apply Nat.le_refl. }
     assert (Mk2 : Marks s2 ((pp p + 1) :: m)).
     { apply Marks_placed; [|exact Hlenp]. eapply Marks_places; [|exact Hm]. unfold PRE, ss_st; destruct il; reflexivity. }
     assert (Hin2 : forall q, pp p <= q < pp p + 3 -> cnt ((pp p + 1) :: m) q = cnt [pp p] q + (if Nat.eqb q (pp p + 1) then 1 else 0)).
@@ -1335,10 +1491,11 @@ Section Sim.
     split; [intros q Hq; rewrite (Ao q Hq), cnt_cons; destruct (Nat.eqb_spec (pp p + 1) q); [lia|reflexivity]|].
     split.
     - split; [exact InvD|]. split; [rewrite app_nil_r; exact GrD|].
-      split; [intros k Hk; rewrite (fr_apis _ _ _ _ FrD) by lia; change (ns_apis s2) with (ns_apis (bump mid)); rewrite <- EN, Hap; apply nth_error_upd_neq; lia|].
+      split; [intros k Hk; rewrite (fr_apis _ _ _ _ _ FrD) by lia; change (ns_apis s2) with (ns_apis (bump mid)); rewrite <- EN, Hap; apply nth_error_upd_neq; lia|].
       split; [rewrite app_nil_r; reflexivity|].
-      split; [change (g_sid g') with (g_sid g1); lia|].
-      destruct (fr_dict _ _ _ _ FrD) as (d & Hd' & Hk'). exists (d ++ [(ITest sid, pp p + 1)]).
+      split; [change (g_sid g') with (g_sid g1); change (g_tid g') with (g_tid g1); split; [lia|split; [lia|]]|].
+      { apply CF_same. rewrite HcnD. change (ns_counters s2) with (ns_counters (bump mid)). rewrite <- EN. exact Hcn. }
+      destruct (fr_dict _ _ _ _ _ FrD) as (d & Hd' & Hk'). exists (d ++ [(ITest sid, pp p + 1)]).
       split; [rewrite Hd', Hdi2, <- app_assoc; reflexivity|].
       apply Forall_app. split.
       + eapply Forall_impl; [|exact Hk']. intros kv (i & E & Hi). exists i. split; [exact E|].
@@ -1399,18 +1556,18 @@ Section Sim.
       exists ns' m', Enters (startcbs s (spos l bp i) ctx) ns ns' (is_none r) xcbs /\
                      Marks ns' m' /\ agrees_in (pp bp) (pp bp + nplaces_l l) m' (mlb l bp r) /\
                      agrees_out (pp bp) (pp bp + nplaces_l l) m m' /\
-                     StartRes ns ns' g g' pend (ids_opt r) bp (napis_l l) /\
-                     (actb ns' l bp ctx r /\ C0 ns' (rchb l bp r kl)).
+                     StartRes ctx ns ns' g g' pend (ids_opt r) bp (napis_l l) /\
+                     (actb ns' l bp ctx r /\ C0 ns' cid (rchb l bp r kl)).
 
   Lemma CX_spos : forall ns ns' ctx cid ie kl rt l bp i,
-      CX ns ctx cid ie kl rt bp -> C0 ns' kl -> CX ns' ctx cid ie kl rt (spos l bp i).
+      CX ns ctx cid ie kl rt bp -> C0 ns' cid kl -> CX ns' ctx cid ie kl rt (spos l bp i).
   Proof. intros. eapply CX_pos; [eassumption|assumption|]. rewrite (proj1 (psi_spos l bp i)). apply Nat.le_refl. Qed.
-  Lemma C0_fire : forall ns tr kl, C0 ns kl -> C0 (fire_ns tr ns) kl.
-  Proof. intros ns tr kl H. exact H. Qed.
+  Lemma C0_fire : forall ns tr cid kl, C0 ns cid kl -> C0 (fire_ns tr ns) cid kl.
+  Proof. intros ns tr cid kl H. exact H. Qed.
 
-  Lemma StartRes_fire : forall a tr b g g' pend ids p da,
-      StartRes (fire_ns tr a) b g g' pend ids p da -> StartRes a b g g' pend ids p da.
-  Proof. intros a tr b g g' pend ids p da H. exact H. Qed.
+  Lemma StartRes_fire : forall ctx a tr b g g' pend ids p da,
+      StartRes ctx (fire_ns tr a) b g g' pend ids p da -> StartRes ctx a b g g' pend ids p da.
+  Proof. intros ctx a tr b g g' pend ids p da H. exact H. Qed.
 
   Lemma is_done_RDone : forall st, is_done st = true -> st = RDone.
   Proof. intros st H. destruct st; try discriminate H. reflexivity. Qed.
@@ -1503,8 +1660,7 @@ Section Sim.
           destruct (inb (pp bp) (pp bp + nplaces_l l) q) eqn:E; [apply inb_spec in E; lia|].
           rewrite (Ao1 q ltac:(lia)). lia. }
         assert (Hctxf : ctx_is nsf ctx cid).
-        { destruct Hctx as (ac & Hac & Hu). exists ac. split; [|exact Hu]. change (ns_apis nsf) with (ns_apis ns1).
-          rewrite Ap1 by lia. exact Hac. }
+        { change (ctx_is ns1 ctx cid). apply (ctx_is_start _ _ _ _ _ _ _ _ _ _ _ Hgr Hres1 Hctx). lia. }
         assert (Hcxf : CX nsf ctx cid ie kl rt bp).
         { eapply CX_pos; [exact Hcx|exact Hc1|apply Nat.le_refl]. }
         destruct (IHf ltac:(intros f0 Hf0; apply HS; lia) l bp ctx cid ie kl rt xcbs t2 (S i) s' g1 r g' nsf m'' pend
@@ -1526,7 +1682,7 @@ Section Sim.
         * intros q Hq. rewrite (Ao2 q Hq). apply Hout''. exact Hq.
         * apply StartRes_if. apply StartRes_fire in Hres2.
           assert (E0 : ids_opt r = [] ++ ids_opt r) by reflexivity. rewrite E0.
-          eapply (StartRes_trans ns ns1 ns2 g g1 g' pend [] (ids_opt r) bp (napis_l l) pi (napis s) bp (napis_l l));
+          eapply (StartRes_trans ctx ns ns1 ns2 g g1 g' pend [] (ids_opt r) bp (napis_l l) pi (napis s) bp (napis_l l));
             [exact Hgr|exact Hres1|rewrite app_nil_r; exact Hres2|lia|lia|lia|lia].
         * destruct (is_none r); exact Hact2.
       + (* it was the last statement: the block is complete *)
@@ -1605,8 +1761,8 @@ Section Sim.
                               (pre_done && all_done sts && negb (is_nil bs)) [] /\
                        Marks ns' m' /\ agrees_in (pp q) (pp q + nplaces_l bs) m' (ml_list sts bs q) /\
                        agrees_out (pp q) (pp q + nplaces_l bs) m m' /\
-                       StartRes ns ns' g g' pend (ids_list sts) q (napis_l bs) /\
-                       (act_list N0 ns' sts bs q ctx /\ C0 ns' kl).
+                       StartRes ctx ns ns' g g' pend (ids_list sts) q (napis_l bs) /\
+                       (act_list N0 ns' sts bs q ctx /\ C0 ns' cid kl).
   Proof.
     intros fl HS bs. revert fl HS.
     induction bs as [|b r IH]; intros fl HS q ctx cid ie kl rt sync pre_done g sts g' ns m pend
@@ -1617,7 +1773,7 @@ Section Sim.
       split; [intros x Hx; unfold nplaces_l in Hx; cbn in Hx; lia|]. split; [intros x _; reflexivity|].
       split; [|split; [exact I|exact (cx_c0 _ _ _ _ _ _ _ Hcx)]].
       unfold ids_list. cbn [flat_map]. split; [exact Hinv|]. split; [rewrite app_nil_r; exact Hgr|].
-      split; [reflexivity|]. split; [rewrite app_nil_r; reflexivity|]. split; [lia|].
+      split; [reflexivity|]. split; [rewrite app_nil_r; reflexivity|]. split; [split; [lia|split; [lia|apply CF_same; reflexivity]]|].
       exists []. split; [reflexivity|constructor].
     - cbn [map] in H. rewrite start_list_S in H. mstep as st g1 E1. mstep as sts1 g2 E2. mstep.
       pose proof Hf as Hfall. apply frag_brs_cons in Hf. destruct Hf as (Hcall & Hfb & Hfr').
@@ -1655,7 +1811,7 @@ Section Sim.
       assert (Hcx1 : CX ns1 ctx cid ie kl rt q1) by (eapply CX_pos; [exact Hcx|exact Hc1|apply Nat.le_refl]).
       pose proof Hres1 as (Hinv1 & Hgr1 & Hap1 & Haw1 & Hsid1 & Hd1).
       assert (Hctx1 : ctx_is ns1 ctx cid).
-      { destruct Hctx as (ac & Hac & Hu). exists ac. split; [rewrite Hap1 by lia; exact Hac|exact Hu]. }
+      { apply (ctx_is_start _ _ _ _ _ _ _ _ _ _ _ Hgr Hres1 Hctx). lia. }
       assert (Hin1 : forall x, pp q1 <= x < pp q1 + nplaces_l r -> cnt m1 x = cnt (cat_of entries r q1) x).
       { intros x Hx. rewrite (Ao1 x ltac:(lia)), (Hin x ltac:(lia)). cbn [cat_of]. fold q1. rewrite cnt_app.
         assert (cnt (entries b q) x = 0); [|lia]. apply not_in_cnt. intro Hi.
@@ -1711,7 +1867,7 @@ Section Sim.
         destruct Hst as [jj Hst].
         assert (T : Inv (bumpn jj ns1) /\ GR g1 (bumpn jj ns1) (pend ++ svc_ids st) /\ ctx_is (bumpn jj ns1) ctx cid /\
                     Marks (bumpn jj ns1) m1 /\ CX (bumpn jj ns1) ctx cid ie kl rt q1 /\
-                    StartRes ns (bumpn jj ns1) g g1 pend (svc_ids st) q (napis b) /\ act N0 (bumpn jj ns1) st b q ctx).
+                    StartRes ctx ns (bumpn jj ns1) g g1 pend (svc_ids st) q (napis b) /\ act N0 (bumpn jj ns1) st b q ctx).
         { split; [apply Inv_bumpn; exact Hinv1|]. split; [apply GR_bumpn; exact Hgr1|]. split; [exact Hctx1|]. split; [exact Mk1|].
           split; [destruct Hcx1 as [X1 X2 X3]; constructor; [exact X1|exact X2|exact X3]|]. split; [apply StartRes_bumpn; exact Hres1|exact Hact1]. }
         clear Hinv1 Hgr1 Hctx1 Mk1 Hcx1 Hres1 Hact1 Hap1 Haw1 Hsid1 Hd1 Hen1 Hc1.
@@ -1726,8 +1882,9 @@ Section Sim.
         assert (Hact1' : act N0 ns2 st b q ctx).
         { apply (act_mono N0 ns1 ns2 st b q ctx Hfb Hact1).
           - intros k Hk. apply Hap2. lia.
-          - rewrite (gr_sid _ _ _ Hgr1), (gr_sid _ _ _ Hgr2). exact Hsid2.
-          - exact Hd2. }
+          - rewrite (gr_sid _ _ _ Hgr1), (gr_sid _ _ _ Hgr2). exact (proj1 Hsid2).
+          - exact Hd2.
+          - intros k ac Hk Hka Hta. destruct Hsid2 as (_ & _ & C2). apply (C2 k ac); [lia|lia|exact Hka|exact Hta]. }
         assert (Eflag : pre_done && is_done st && all_done sts1 && negb (is_nil r)
                         = pre_done && all_done (st :: sts1) && negb (is_nil (b :: r))).
         { cbn [all_done is_nil negb]. destruct pre_done, (is_done st), (all_done sts1), r; cbn in *; try reflexivity; discriminate Q. }
@@ -1744,7 +1901,7 @@ Section Sim.
              pose proof (mlx_range N0 ns2 st b q ctx Hfb Hact1' x Hi) as R. unfold in_p in R. lia.
         * intros x Hx. rewrite (Ao2 x ltac:(lia)). apply Ao1. lia.
         * rewrite ids_list_snoc.
-          eapply (StartRes_trans ns ns1 ns2 g g1 g2 pend _ _ q (napis b + napis_l r) q (napis b) q1 (napis_l r));
+          eapply (StartRes_trans ctx ns ns1 ns2 g g1 g2 pend _ _ q (napis b + napis_l r) q (napis b) q1 (napis_l r));
             try eassumption; lia.
   Qed.
 
@@ -1829,19 +1986,13 @@ Section Sim.
     destruct (inb (pp p) (pp p + S (nplaces_l bs)) q) eqn:E; [apply inb_spec in E; lia|rewrite (Ao q ltac:(lia)); cnt_cases].
   Qed.
 
-  Lemma StartRes_fired : forall a b tr g g' pend ids p da,
-      StartRes a b g g' pend ids p da -> List.length (ns_places (fire_ns tr b)) = List.length (ns_places b) ->
-      StartRes a (fire_ns tr b) g g' pend ids p da.
+  Lemma StartRes_fired : forall ctx a b tr g g' pend ids p da,
+      StartRes ctx a b g g' pend ids p da -> List.length (ns_places (fire_ns tr b)) = List.length (ns_places b) ->
+      StartRes ctx a (fire_ns tr b) g g' pend ids p da.
   Proof.
-    intros a b tr g g' pend ids p da (I1 & G1 & A1 & W1 & S1 & D1) Hl.
+    intros ctx a b tr g g' pend ids p da (I1 & G1 & A1 & W1 & S1 & D1) Hl.
     split; [apply Inv_fire; assumption|]. split; [apply GR_fire; exact G1|]. split; [exact A1|].
     split; [exact W1|]. split; [exact S1|exact D1].
-  Qed.
-
-  Lemma rchb_nocount : forall l bp r kl, sok_block NC false l = true -> rchb l bp r kl = kl.
-  Proof.
-    intros l bp [[j st]|] kl H; [|reflexivity]. cbn [rchb]. unfold rch_block.
-    destruct (nth_error l j) as [s'|] eqn:En; [|reflexivity]. apply (rch_nocount NC). apply (sok_block_nth _ _ _ _ _ H En).
   Qed.
 
   Lemma start_call_case : forall f, (forall f0, f0 < S f -> StartOK f0) ->
@@ -1857,8 +2008,8 @@ Section Sim.
         exists ns' m', Enters (startcbs (XCall t at_ ins bd) p ctx) ns ns' (is_done st) xcbs /\
                        Marks ns' m' /\ agrees_in (pp p) (pp p + nplaces (XCall t at_ ins bd)) m' (mlx st (XCall t at_ ins bd) p) /\
                        agrees_out (pp p) (pp p + nplaces (XCall t at_ ins bd)) m m' /\
-                       StartRes ns ns' g g' pend (svc_ids st) p (napis (XCall t at_ ins bd)) /\
-                       (act N0 ns' st (XCall t at_ ins bd) p ctx /\ C0 ns' (rch st (XCall t at_ ins bd) p kl)).
+                       StartRes ctx ns ns' g g' pend (svc_ids st) p (napis (XCall t at_ ins bd)) /\
+                       (act N0 ns' st (XCall t at_ ins bd) p ctx /\ C0 ns' cid (rch st (XCall t at_ ins bd) p kl)).
   Proof.
     intros f IHf t at_ ins bd p ctx cid ie kl rt xcbs t2 g st g' ns m pend H Hf Hsok Hcx Hw Hnp HP HT Ht2 Hnt2 Hx2 Hinv Hgr Hctx Hlt Hm Hin HO.
     cbn [sok] in Hsok. apply andb_prop in Hsok. destruct Hsok as [Hidx Hsokb].
@@ -1873,10 +2024,12 @@ Section Sim.
     mstep as r g2 E2.
     cbn [wired] in Hw. destruct Hw as [(il & Hapi) Hwb].
     destruct (iv_ready _ Hinv _ _ Hapi) as (u & Ha & _).
+    pose proof (ctx_is_tid _ _ _ Hctx) as Hcidlt.
     destruct (sim_TS (pa p) (with_uuid u (call_api il t at_ ins ctx (pa p))) (Some cid) g g1 ns pend Hinv Hgr Ha eq_refl eq_refl)
       as (Hrun & Hcbs & Hinv1 & Hgr1 & Hpl1 & Hap1 & Hd1 & Hcn1).
     { exact Hidx. }
     { cbn [octx_is call_api a_ctx with_uuid]. split; [exact Hctx|lia]. }
+    { right. lia. }
     { unfold g1, g_step. cbn [call_api a_name a_site a_params with_uuid]. rewrite Hsub.
       repeat split; reflexivity. }
     set (ns1 := notified TS (with_uuid (ITest (ns_tid ns)) (with_uuid u (call_api il t at_ ins ctx (pa p)))) false (ts_pre (pa p) ns)) in *.
@@ -1885,27 +2038,40 @@ Section Sim.
     destruct Hn0' as [s0 Hn0].
     set (bp := body_pos t p) in *.
     assert (Hctx1 : ctx_is ns1 (pa p) (g_tid g)).
-    { eexists. split; [rewrite Hap1; apply nth_error_upd_eq; exact Ha|reflexivity]. }
+    { eexists. split; [rewrite Hap1; apply nth_error_upd_eq; exact Ha|]. split; [reflexivity|]. split; [reflexivity|].
+      rewrite (gr_tid _ _ _ Hgr1). unfold g1. cbn [g_tid set]. lia. }
+    assert (Etid1 : ns_tid ns <= ns_tid ns1).
+    { rewrite (gr_tid _ _ _ Hgr1), (gr_tid _ _ _ Hgr). unfold g1. cbn [g_tid set]. lia. }
+    assert (Hctxc1 : ctx_is ns1 ctx cid).
+    { apply (ctx_is_same ns ns1 ctx cid Hctx); [rewrite Hap1; apply nth_error_upd_neq; lia|exact Etid1]. }
     assert (Hm1 : Marks ns1 m) by (eapply Marks_places; [exact Hpl1|exact Hm]).
     assert (Hnp' : no_parloop (CbTF (pa p) :: xcbs) = true) by exact Hnp.
     destruct f as [|f']; [discriminate E2|].
-    assert (Hc01 : C0 ns1 kl) by (apply (C0_same ns ns1 kl Hcn1 (cx_c0 _ _ _ _ _ _ _ Hcx))).
-    assert (Hcx1 : CX ns1 (pa p) (g_tid g) [] kl false bp).
-    { constructor; [exact Hc01|reflexivity|discriminate]. }
-    destruct (start_block_case f' ltac:(intros f0 Hf0; apply IHf; lia) bd bp (pa p) (g_tid g) [] kl false (CbTF (pa p) :: xcbs) t2 0 s0 g1 r g2 ns1 m pend
+    assert (Hc01 : C0 ns1 cid kl) by (apply (C0_same ns ns1 cid kl Hcn1 (cx_c0 _ _ _ _ _ _ _ Hcx))).
+    assert (Hcx1 : CX ns1 (pa p) (g_tid g) [] [] rt bp).
+    { constructor; [|reflexivity|intros key k []].
+      unfold C0. rewrite <- (gr_tid _ _ _ Hgr). unfold counters_of. rewrite Hcn1.
+      apply (UQ_fresh ns (proj2 (iv_cnt _ Hinv))). }
+    destruct (start_block_case f' ltac:(intros f0 Hf0; apply IHf; lia) bd bp (pa p) (g_tid g) [] [] rt (CbTF (pa p) :: xcbs) t2 0 s0 g1 r g2 ns1 m pend
                                E2 Hn0 Hfb Hsokb Hcx1 Hwb Hnp' HP HT Ht2 ltac:(unfold in_tb; cbn [bp body_pos pt]; lia) Hx2 Hinv1 Hgr1 Hctx1
                                ltac:(cbn [bp body_pos pa]; lia) Hm1)
       as (ns2 & m2 & Hen2 & Mk2 & Ai2 & Ao2 & Hres2 & Hact2 & Hc2).
     { intros q Hq. rewrite (Hin q Hq), entries_call, (entries_b_nth0 _ _ _ Hn0). reflexivity. }
     { exact HO. }
-    rewrite (rchb_nocount bd bp r kl Hsokb) in Hc2.
     pose proof Hres2 as (Hinv2 & Hgr2 & Hap2 & Haw2 & Hsid2 & Hd2).
+    (* the caller's counters are untouched *)
+    assert (Hcc2 : C0 ns2 cid kl).
+    { apply (C0_frame (pa p) ns1 ns2 ctx cid kl _ _ Hctxc1 (Frame_of_StartRes _ _ _ _ _ _ _ _ _ Hgr1 Hres2)); [cbn [bp body_pos pa]; lia|lia|exact Hc01]. }
     assert (Hapi2 : nth_error (ns_apis ns2) (pa p) = Some a1).
     { rewrite Hap2 by (cbn [bp body_pos pa]; lia). rewrite Hap1. rewrite (nth_error_upd_eq _ _ _ _ _ Ha). reflexivity. }
-    assert (Hres12 : StartRes ns ns2 g g2 pend (ids_opt r) p (S (napis_l bd))).
+    assert (Hres12 : StartRes ctx ns ns2 g g2 pend (ids_opt r) p (S (napis_l bd))).
     { split; [exact Hinv2|]. split; [exact Hgr2|].
       split; [intros k Hk; rewrite Hap2 by (cbn [bp body_pos pa]; lia); rewrite Hap1; apply nth_error_upd_neq; lia|].
-      split; [rewrite Haw2; reflexivity|]. split; [exact Hsid2|].
+      split; [rewrite Haw2; reflexivity|]. split.
+      { destruct Hsid2 as (S1 & S2 & C2). change (g_sid g1) with (g_sid g) in S1. change (g_tid g1) with (S (g_tid g)) in S2.
+        split; [exact S1|]. split; [lia|]. intros k ac Hk Hkc Hka Hta.
+        rewrite (C2 k ac); [unfold counters_of; rewrite Hcn1; reflexivity|cbn [bp body_pos pa]; lia|lia| |exact Hta].
+        rewrite Hap1, nth_error_upd_neq by lia. exact Hka. }
       destruct Hd2 as (d & Hd & Hk). exists d. split; [rewrite Hd, Hd1; reflexivity|].
       eapply Forall_impl; [|exact Hk]. intros kv (i & E & Hi). exists i. split; [exact E|].
       change (ns_sid ns1) with (ns_sid (ts_pre (pa p) ns)) in Hi. exact Hi. }
@@ -1915,15 +2081,14 @@ Section Sim.
       mstep. exists ns2, m2. cbn [is_done mlx svc_ids]. cbn [Enters].
       split; [eapply Starts_cons; [exact Hrun|exact Hcbs|reflexivity|exact Hen2]|].
       split; [exact Mk2|]. split; [rewrite ml_call; exact Ai2|]. split; [exact Ao2|]. split; [exact Hres12|].
-      split; [|rewrite rch_call; exact Hc2].
+      split; [|rewrite rch_call; exact Hcc2].
       rewrite act_call. fold bp. split; [|exact Hact2].
-      exists il. exact Hapi2.
+      split; [exists il; exact Hapi2|exact Hc2].
     - (* the body is complete: task finished *)
       unfold bind at 1 in H. unfold emit at 1 in H. rewrite emit_gen_eq in H.
       unfold ret in H. injection H as Hs Hg. subst st.
       assert (Hctx2 : ctx_is ns2 ctx cid).
-      { destruct Hctx as (ac & Hac & Hu). exists ac. split; [|exact Hu].
-        rewrite Hap2 by (cbn [bp body_pos pa]; lia). rewrite Hap1, nth_error_upd_neq by lia. exact Hac. }
+      { apply (ctx_is_start _ _ _ _ _ _ _ _ _ _ _ Hgr Hres12 Hctx). lia. }
       rewrite app_nil_r in Hgr2.
       destruct (sim_fin TF (pa p) a1 (Some cid) false g2 g' ns2 pend pend (or_intror eq_refl) Hinv2 Hgr2 Hapi2)
         as (Hcbs3 & Inv3 & Gr3 & Pl3 & Ap3 & Di3).
@@ -1938,10 +2103,11 @@ Section Sim.
       exists ns3, m2. cbn [is_done mlx svc_ids xplace].
       split; [eapply Enters_cons; [exact Hrun|exact Hcbs|reflexivity|]; eapply Enters_cb; [exact Hen2|exact Hr3|exact Hcbs3|reflexivity]|].
       split; [eapply Marks_places; [exact Pl3|exact Mk2]|]. split; [exact Ai2|]. split; [exact Ao2|].
-      split; [|split; [exact I|cbn [rch]; unfold ns3; apply (C0_same ns2 _ kl (nf_counters _ _ _ _) Hc2)]].
-      destruct Hres12 as (_ & _ & A12 & W12 & S12 & D12).
+      split; [|split; [exact I|cbn [rch]; unfold ns3; apply (C0_same ns2 _ cid kl (nf_counters _ _ _ _) Hcc2)]].
+      destruct Hres12 as (_ & _ & A12 & W12 & (S12 & S12' & C12) & D12).
       split; [exact Inv3|]. split; [rewrite app_nil_r; exact Gr3|]. split; [intros k Hk; rewrite Ap3; apply A12; exact Hk|].
-      split; [rewrite <- Hg; exact W12|]. split; [rewrite <- Hg; exact S12|]. rewrite Di3. exact D12.
+      split; [rewrite <- Hg; exact W12|]. split; [rewrite <- Hg; split; [exact S12|split; [exact S12'|]]|rewrite Di3; exact D12].
+      apply (CF_eq_r _ _ ns2 _ _ _ C12). unfold ns3. apply nf_counters.
   Qed.
 
   Lemma start_list_length : forall fl cid l g sts g',
@@ -1971,8 +2137,8 @@ Section Sim.
         exists ns' m', Enters (startcbs (XParallel bs) p ctx) ns ns' (is_done st) xcbs /\
                        Marks ns' m' /\ agrees_in (pp p) (pp p + nplaces (XParallel bs)) m' (mlx st (XParallel bs) p) /\
                        agrees_out (pp p) (pp p + nplaces (XParallel bs)) m m' /\
-                       StartRes ns ns' g g' pend (svc_ids st) p (napis (XParallel bs)) /\
-                       (act N0 ns' st (XParallel bs) p ctx /\ C0 ns' (rch st (XParallel bs) p kl)).
+                       StartRes ctx ns ns' g g' pend (svc_ids st) p (napis (XParallel bs)) /\
+                       (act N0 ns' st (XParallel bs) p ctx /\ C0 ns' cid (rch st (XParallel bs) p kl)).
   Proof.
     intros f IHf bs p ctx cid ie kl rt xcbs t2 g st g' ns m pend H Hf Hsok Hcx Hw Hnp HP HT Ht2 Hnt2 Hx2 Hinv Hgr Hctx Hlt Hm Hin HO.
     cbn [sok] in Hsok.
@@ -2142,7 +2308,7 @@ Section Sim.
         Hout PL PH TL TH t2 m ->
         Inv s1 -> GR g1 s1 pend -> CX s1 ctx cid ie kl rt cb ->
         ns_places s1 = ns_places ns -> ns_apis s1 = ns_apis ns -> ns_place_dict s1 = ns_place_dict ns ->
-        ns_sid s1 = ns_sid ns -> ns_cbs s1 = ns_cbs ns ->
+        ns_sid s1 = ns_sid ns -> ns_cbs s1 = ns_cbs ns -> ns_tid s1 = ns_tid ns -> CF ctx ns s1 AL AH ->
         (forall s', EvalTo tasks env (placed pb s1) s' -> RunCb tasks env cbk ns s') ->
         g_same g g1 ->
         run_block orc imm f cid ie B 0 g1 = Ok (r, g') ->
@@ -2156,15 +2322,15 @@ Section Sim.
           agrees_out PL PH m m' /\
           Inv ns' /\ GR g' ns' (pend ++ ids_opt r) /\
           (forall k, ~ (AL <= k < AH) -> nth_error (ns_apis ns') k = nth_error (ns_apis ns) k) /\
-          g_awaited g' = g_awaited g ++ ids_opt r /\ g_sid g <= g_sid g' /\
+          g_awaited g' = g_awaited g ++ ids_opt r /\ (g_sid g <= g_sid g' /\ g_tid g <= g_tid g' /\ CF ctx ns ns' AL AH) /\
           (exists d, ns_place_dict ns' = d ++ ns_place_dict ns /\
                      Forall (fun kv => exists i, fst kv = ITest i /\ ns_sid ns <= i) d) /\
-          (actb ns' B cb ctx r /\ C0 ns' (rchb B cb r kl)).
+          (actb ns' B cb ctx r /\ C0 ns' cid (rchb B cb r kl)).
   Proof.
     intros f IHf cbk ep pb xs scbs B cb fb sb PL PH TL TH AL AH ctx cid ie kl rt t2 s1 g g1 r g' ns m pend Hep Hpb Hepb Hxs
            HfB HsokB WB R1 R2 R3 R4 R5 R6 Hfb Hsb Hnsb Pfb Qfb Cfb Psb Qsb Csb Hnp Hcbk Hoth HP HT Ht2 Hnt2 Hx2
-           Hinv Hgr Hctx Hlt Hm Hin HO Inv1 Gr1 Hcx1 Epl Eap Edi Esid Ecb Hopen (T1 & T2 & T3 & T4 & T5 & T6 & T7) E2.
-    pose proof Hctx as (ac & Hac & Huc).
+           Hinv Hgr Hctx Hlt Hm Hin HO Inv1 Gr1 Hcx1 Epl Eap Edi Esid Ecb Etid Hcf1 Hopen (T1 & T2 & T3 & T4 & T5 & T6 & T7) E2.
+    pose proof Hctx as (ac & Hac & Huc & Htk & Hcl).
     assert (Hlenp : pb < List.length (ns_places s1)).
     { rewrite Epl, (iv_npl _ Hinv). fold nP. lia. }
     assert (Mk1 : Marks s1 m) by (eapply Marks_places; [exact Epl|exact Hm]).
@@ -2262,7 +2428,8 @@ Section Sim.
       - apply no_parloop_startcbs. }
     (* the branch starts *)
     assert (Hctxf : ctx_is nsf ctx cid).
-    { exists ac. split; [change (ns_apis nsf) with (ns_apis s1); rewrite Eap; exact Hac|exact Huc]. }
+    { apply (ctx_is_same ns nsf ctx cid Hctx); [change (ns_apis nsf) with (ns_apis s1); rewrite Eap; reflexivity|].
+      change (ns_tid nsf) with (ns_tid s1). rewrite Etid. apply Nat.le_refl. }
     assert (Hcxf : CX nsf ctx cid ie kl rt cb) by (destruct Hcx1 as [X1 X2 X3]; constructor; [exact X1|exact X2|exact X3]).
     destruct f as [|f']; [discriminate E2|].
     destruct (start_block_case f' ltac:(intros f0 Hlef0; apply IHf; lia) B cb ctx cid ie kl rt [] sb 0 s0 g1 r g' nsf m3 pend E2 Hn0 HfB HsokB Hcxf WB eq_refl
@@ -2273,6 +2440,10 @@ Section Sim.
     { exact HoutB. }
     fold p0' in Hen4.
     pose proof Hres4 as (Inv4 & Gr4 & Ap4 & Aw4 & Sid4 & Di4).
+    assert (Sid4' : g_sid g <= g_sid g' /\ g_tid g <= g_tid g' /\ CF ctx ns ns4 AL AH).
+    { destruct Sid4 as (S1 & S2 & C4). rewrite T2 in S1. rewrite T1 in S2. split; [exact S1|]. split; [exact S2|].
+      intros k ac0 Hk Hkc Hka Hta. rewrite (C4 k ac0); [apply (Hcf1 k ac0 Hk Hkc Hka Hta)|lia|exact Hkc| |exact Hta].
+      change (ns_apis nsf) with (ns_apis s1). rewrite Eap. exact Hka. }
     change (ns_apis nsf) with (ns_apis s1) in Ap4. rewrite Eap in Ap4.
     change (ns_place_dict nsf) with (ns_place_dict s1) in Di4. change (ns_sid nsf) with (ns_sid s1) in Di4. rewrite Edi, Esid in Di4.
     assert (Hgo : forall rest K, MS (ns, ([cbk] ++ rest) :: K) (nsf, startcbs s0 p0' ctx :: UnwE [] ((marks 0 ++ rest) :: K))).
@@ -2292,7 +2463,7 @@ Section Sim.
       split; [intros q Hq; rewrite (Ao4 q ltac:(lia)); apply Hm3_out; exact Hq|].
       split; [exact Inv4|]. split; [exact Gr4|].
       split; [intros k Hk; rewrite Ap4 by lia; reflexivity|].
-      split; [rewrite Aw4, T7; reflexivity|]. split; [rewrite <- T2; exact Sid4|].
+      split; [rewrite Aw4, T7; reflexivity|]. split; [exact Sid4'|].
       split; [exact Di4|split; [exact Hact4|exact Hc4]].
     - (* the branch is complete: its second transition fires *)
       destruct (block_exit B cb sb xs PL PH scbs ctx ns4 m3 m4 HfB WB R1 R2 HP ltac:(lia) Hxs Psb Qsb Csb Hnp HoutB Hz3 Inv4 Mk4 Ai4 Ao4)
@@ -2303,7 +2474,7 @@ Section Sim.
       split; [intros q Hq; rewrite (Ao5 q Hq); apply Hm3_out; exact Hq|].
       split; [exact Inv5|]. split; [apply GR_fire; exact Gr4|].
       split; [intros k Hk; change (ns_apis (fire_ns trs ns4)) with (ns_apis ns4); rewrite Ap4 by lia; reflexivity|].
-      split; [rewrite Aw4, T7; reflexivity|]. split; [rewrite <- T2; exact Sid4|].
+      split; [rewrite Aw4, T7; reflexivity|]. split; [exact Sid4'|].
       split; [exact Di4|split; [exact I|exact Hc4]].
   Qed.
 
@@ -2355,16 +2526,16 @@ Section Sim.
           agrees_out PL PH m m' /\
           Inv ns' /\ GR g' ns' (pend ++ ids_opt r) /\
           (forall k, ~ (AL <= k < AH) -> nth_error (ns_apis ns') k = nth_error (ns_apis ns) k) /\
-          g_awaited g' = g_awaited g ++ ids_opt r /\ g_sid g <= g_sid g' /\
+          g_awaited g' = g_awaited g ++ ids_opt r /\ (g_sid g <= g_sid g' /\ g_tid g <= g_tid g' /\ CF ctx ns ns' AL AH) /\
           (exists d, ns_place_dict ns' = d ++ ns_place_dict ns /\
                      Forall (fun kv => exists i, fst kv = ITest i /\ ns_sid ns <= i) d) /\
-          (actb ns' B cb ctx r /\ C0 ns' (rchb B cb r kl)).
+          (actb ns' B cb ctx r /\ C0 ns' cid (rchb B cb r kl)).
   Proof.
     intros f IHf e b B cb fb sb PL PH TL TH AL AH ctx cid ie kl rt xcbs t2 q' g g1 r g' ns m pend pb
            HfB HsokB Hcx WB R1 R2 R3 R4 R5 R6 Hfb Hsb Hnsb Pfb Qfb Cfb Psb Qsb Csb Hnp Hoth HP HT Ht2 Hnt2 Hx2
            Hinv Hgr Hctx Hlt Hm Hin HO Hdec Hq1 Hlog1 Hsame E2.
     assert (Hpb : PL <= pb < PL + 2) by (unfold pb; destruct b; lia).
-    pose proof Hctx as (ac & Hac & Huc).
+    pose proof Hctx as (ac & Hac & Huc & Htk & Hcl).
     destruct (cond_pre_ok e cid q' g g1 ns pend ac Hinv Hgr Huc Hq1 Hlog1 Hsame) as [Inv1 Gr1].
     assert (Hopen : forall s',
                        EvalTo tasks env (placed pb (cond_pre e (ident_nat (a_uuid ac)) q' ns)) s' ->
@@ -2379,7 +2550,7 @@ Section Sim.
     destruct (start_branch f IHf (CbCond e PL (PL + 1) ctx) (PL + 2) pb (PL + 3) xcbs B cb fb sb PL PH TL TH AL AH ctx cid ie kl rt t2
                            (cond_pre e (ident_nat (a_uuid ac)) q' ns) g g1 r g' ns m pend
                            ltac:(lia) ltac:(lia) ltac:(lia) ltac:(lia) HfB HsokB WB R1 R2 R3 R4 R5 R6 Hfb Hsb Hnsb Pfb Qfb Cfb Psb Qsb Csb Hnp eq_refl Hoth
-                           HP HT Ht2 Hnt2 Hx2 Hinv Hgr Hctx Hlt Hm Hin HO Inv1 Gr1 Hcx1 eq_refl eq_refl eq_refl eq_refl eq_refl Hopen Hsame E2)
+                           HP HT Ht2 Hnt2 Hx2 Hinv Hgr Hctx Hlt Hm Hin HO Inv1 Gr1 Hcx1 eq_refl eq_refl eq_refl eq_refl eq_refl eq_refl (CF_same _ _ _ _ _ eq_refl) Hopen Hsame E2)
       as (ns' & m' & Hen & Rest).
     exists ns', m'. split; [|exact Rest]. destruct r as [[j st0]|]; exact Hen.
   Qed.
@@ -2406,7 +2577,7 @@ Section Sim.
            (T1 & T2 & T3 & T4 & T5 & T6 & T7).
     cbn [wired] in Hw. destruct Hw as (W1 & W2 & W3 & W4 & W5 & W6 & W7 & W8 & W9 & WP).
     set (PL := pp p) in *. set (PH := pp p + (4 + nplaces_l P)) in *.
-    pose proof Hctx as (ac & Hac & Huc).
+    pose proof Hctx as (ac & Hac & Huc & Htk & Hcl).
     set (s1 := cond_pre e (ident_nat (a_uuid ac)) q' ns).
     assert (Inv1 : Inv s1) by (destruct Hinv as [I1 I2 I3 I4 I5 I6 I7 I8 I9 I10 I11]; constructor; assumption).
     assert (Gr1 : GR g1 s1 pend).
@@ -2600,8 +2771,8 @@ Section Sim.
         exists ns' m', Enters (startcbs (XCond e P F) p ctx) ns ns' (is_done st) xcbs /\
                        Marks ns' m' /\ agrees_in (pp p) (pp p + nplaces (XCond e P F)) m' (mlx st (XCond e P F) p) /\
                        agrees_out (pp p) (pp p + nplaces (XCond e P F)) m m' /\
-                       StartRes ns ns' g g' pend (svc_ids st) p (napis (XCond e P F)) /\
-                       (act N0 ns' st (XCond e P F) p ctx /\ C0 ns' (rch st (XCond e P F) p kl)).
+                       StartRes ctx ns ns' g g' pend (svc_ids st) p (napis (XCond e P F)) /\
+                       (act N0 ns' st (XCond e P F) p ctx /\ C0 ns' cid (rch st (XCond e P F) p kl)).
   Proof.
     intros f IHf e P F p ctx cid ie kl rt xcbs t2 g st g' ns m pend H Hf Hsok Hcx Hw Hnp HP HT Ht2 Hnt2 Hx2 Hinv Hgr Hctx Hlt Hm Hin HO.
     cbn [sok] in Hsok. apply andb_prop in Hsok. destruct Hsok as [HsP HsF].
@@ -2646,9 +2817,9 @@ Section Sim.
                                    Hdec Hq1 Hlog1 Hsame) as (ns' & m' & Hen & Mk & Ai & Ao & Inv' & Gr' & Ea & Ed & Es & Ec).
         destruct Hsame as (T1 & T2 & T3 & T4 & T5 & T6 & T7).
         exists ns', m'. split; [exact Hen|]. split; [exact Mk|]. split; [exact Ai|]. split; [exact Ao|].
-        split; [|split; [exact I|apply (C0_same ns ns' kl Ec (cx_c0 _ _ _ _ _ _ _ Hcx))]].
+        split; [|split; [exact I|apply (C0_same ns ns' cid kl Ec (cx_c0 _ _ _ _ _ _ _ Hcx))]].
         split; [exact Inv'|]. split; [rewrite app_nil_r; exact Gr'|]. split; [intros k _; rewrite Ea; reflexivity|].
-        split; [rewrite app_nil_r; exact T7|]. split; [rewrite T2; apply Nat.le_refl|].
+        split; [rewrite app_nil_r; exact T7|]. split; [rewrite T1, T2; split; [apply Nat.le_refl|split; [apply Nat.le_refl|apply CF_same; exact Ec]]|].
         exists []. split; [rewrite Ed; reflexivity|constructor]. }
     pose proof (frag_cond_ne _ _ _ HneF Hf) as [HfP HfF].
     rewrite nplaces_cond, (ntrans_cond_ne _ _ _ HneF), napis_cond in *. unfold in_t, in_p in *.
@@ -2668,11 +2839,12 @@ Section Sim.
           agrees_out (pp p) (pp p + (4 + nplaces_l P + nplaces_l F)) m m' /\
           Inv ns' /\ GR g2 ns' (pend ++ ids_opt r) /\
           (forall k, ~ (pa p <= k < pa p + (napis_l P + napis_l F)) -> nth_error (ns_apis ns') k = nth_error (ns_apis ns) k) /\
-          g_awaited g2 = g_awaited g ++ ids_opt r /\ g_sid g <= g_sid g2 /\
+          g_awaited g2 = g_awaited g ++ ids_opt r /\
+          (g_sid g <= g_sid g2 /\ g_tid g <= g_tid g2 /\ CF ctx ns ns' (pa p) (pa p + (napis_l P + napis_l F))) /\
           (exists d, ns_place_dict ns' = d ++ ns_place_dict ns /\
                      Forall (fun kv => exists i, fst kv = ITest i /\ ns_sid ns <= i) d) /\
           (actb ns' (if b then P else F) (if b then cond_p p else cond_f P p) ctx r /\
-           C0 ns' (rchb (if b then P else F) (if b then cond_p p else cond_f P p) r kl))).
+           C0 ns' cid (rchb (if b then P else F) (if b then cond_p p else cond_f P p) r kl))).
     { destruct b.
       - apply (start_cond_branch f IHf e true P (cond_p p) (pt p) (pt p + 2) (pp p) (pp p + (4 + nplaces_l P + nplaces_l F))
                  (pt p) (pt p + (4 + ntrans_b P + ntrans_b F)) (pa p) (pa p + (napis_l P + napis_l F)) ctx cid ie kl rt xcbs t2 q' g g1 r g2 ns m pend
@@ -2733,8 +2905,8 @@ Section Sim.
       exists ns' m', Enters (startcbs (XWhile e B) p ctx) ns ns' (is_done st) xcbs /\
                      Marks ns' m' /\ agrees_in (pp p) (pp p + nplaces (XWhile e B)) m' (mlx st (XWhile e B) p) /\
                      agrees_out (pp p) (pp p + nplaces (XWhile e B)) m m' /\
-                     StartRes ns ns' g g' pend (svc_ids st) p (napis (XWhile e B)) /\
-                     (act N0 ns' st (XWhile e B) p ctx /\ C0 ns' (rch st (XWhile e B) p kl)).
+                     StartRes ctx ns ns' g g' pend (svc_ids st) p (napis (XWhile e B)) /\
+                     (act N0 ns' st (XWhile e B) p ctx /\ C0 ns' cid (rch st (XWhile e B) p kl)).
 
   Lemma loop_case : forall f, (forall f0, f0 < f -> StartOK f0) -> LoopOK f.
   Proof.
@@ -2749,7 +2921,7 @@ Section Sim.
     destruct (decide_m_spec _ _ _ _ _ E1) as (q' & Hdec & Hq1 & Hlog1 & Hsame).
     pose proof (xplace_range_b B HfB (loop_p p)) as XB. cbn [loop_p pp] in XB.
     set (CW := CbWhile e (pp p + 1) (pp p + 2) ctx) in *.
-    pose proof Hctx as (ac & Hac & Huc).
+    pose proof Hctx as (ac & Hac & Huc & Htk & Hcl).
     destruct (cond_pre_ok e cid q' g g1 ns pend ac Hinv Hgr Huc Hq1 Hlog1 Hsame) as [Inv1 Gr1].
     set (s1 := cond_pre e (ident_nat (a_uuid ac)) q' ns) in *.
     destruct b.
@@ -2765,6 +2937,7 @@ Section Sim.
         - exact Hev. }
       assert (Hcx1 : CX s1 ctx cid ie kl rt (loop_p p)).
       { eapply CX_pos; [exact Hcx|exact (cx_c0 _ _ _ _ _ _ _ Hcx)|]. unfold loop_p, si_sub, s_path. cbn [psi s_pre]. rewrite app_length. lia. }
+      assert (Hcf1 : CF ctx ns s1 (pa p) (pa p + napis_l B)) by (apply CF_same; reflexivity).
       destruct (start_branch f HS CW (pp p) (pp p + 1) (pp p) [CW] B (loop_p p) (pt p) (pt p + 2)
                              (pp p) (pp p + (4 + nplaces_l B)) (pt p) (pt p + (3 + ntrans_b B)) (pa p) (pa p + napis_l B)
                              ctx cid ie kl rt t2 s1 g g1 r g2 ns m pend
@@ -2785,7 +2958,8 @@ Section Sim.
       + (* the body completed at once: next test, one evaluation deeper *)
         rewrite app_nil_r in Gr', Aw'.
         assert (Hctx' : ctx_is ns' ctx cid).
-        { exists ac. split; [|exact Huc]. rewrite Ap' by lia. exact Hac. }
+        { apply (ctx_is_same ns ns' ctx cid Hctx); [apply Ap'; lia|].
+          rewrite (gr_tid _ _ _ Hgr), (gr_tid _ _ _ Gr'). lia. }
         assert (Ao' : agrees_out (pp p) (pp p + (4 + nplaces_l B)) m m') by exact Ao.
         assert (Hcx' : CX ns' ctx cid ie kl rt p) by (eapply CX_pos; [exact Hcx|exact Hcb|apply Nat.le_refl]).
         destruct (IHf ltac:(intros f0 Hf0; apply HS; lia) e B p ctx cid ie kl rt xcbs t2 (S k) g2 st g' ns' m' pend H Hf Hsok Hcx' Hwall Hnp)
@@ -2806,7 +2980,7 @@ Section Sim.
         split; [exact HenF|]. split; [destruct (is_done st); exact Mk2|]. split; [exact Ai2|]. split; [exact Ao2'|]. split; [|destruct (is_done st); exact Hact2].
         apply StartRes_if.
         assert (E0 : svc_ids st = [] ++ svc_ids st) by reflexivity. rewrite E0.
-          eapply (StartRes_trans ns ns' ns'' g g2 g' pend [] (svc_ids st) p (napis_l B) p (napis_l B) p (napis_l B));
+          eapply (StartRes_trans ctx ns ns' ns'' g g2 g' pend [] (svc_ids st) p (napis_l B) p (napis_l B) p (napis_l B));
             [exact Hgr| |rewrite app_nil_r; exact Hres2|lia|lia|lia|lia].
           split; [exact Inv'|]. split; [rewrite app_nil_r; exact Gr'|]. split; [exact Ap'|].
           split; [rewrite app_nil_r; exact Aw'|]. split; [exact Sid'|exact Di'].
@@ -2822,9 +2996,9 @@ Section Sim.
                           Inv1 Gr1 eq_refl eq_refl eq_refl eq_refl eq_refl Hopen) as (ns' & m' & Hen & Mk & Ai & Ao & Inv' & Gr' & Ea & Ed & Es & Ec).
       destruct Hsame as (T1 & T2 & T3 & T4 & T5 & T6 & T7).
       exists ns', m'. split; [exact Hen|]. split; [exact Mk|]. split; [exact Ai|]. split; [exact Ao|].
-      split; [|split; [exact I|cbn [rch]; apply (C0_same ns ns' kl Ec (cx_c0 _ _ _ _ _ _ _ Hcx))]].
+      split; [|split; [exact I|cbn [rch]; apply (C0_same ns ns' cid kl Ec (cx_c0 _ _ _ _ _ _ _ Hcx))]].
       split; [exact Inv'|]. split; [rewrite app_nil_r; exact Gr'|]. split; [intros k0 _; rewrite Ea; reflexivity|].
-      split; [rewrite app_nil_r; exact T7|]. split; [rewrite T2; apply Nat.le_refl|].
+      split; [rewrite app_nil_r; exact T7|]. split; [rewrite T1, T2; split; [apply Nat.le_refl|split; [apply Nat.le_refl|apply CF_same; exact Ec]]|].
       exists []. split; [rewrite Ed; reflexivity|constructor].
   Qed.
 
@@ -2884,11 +3058,11 @@ Section Sim.
       ns_start_place ns' = ns_start_place ns -> ns_final_place ns' = ns_final_place ns -> ns_places ns' = ns_places ns ->
       ns_apis ns' = ns_apis ns -> ns_place_dict ns' = ns_place_dict ns -> ns_sid ns' = ns_sid ns ->
       ns_obs ns' = ns_obs ns -> ns_awaited ns' = ns_awaited ns -> ns_pending ns' = ns_pending ns ->
-      cnts_plain (ns_counters ns') -> NC = false -> Inv ns'.
+      cnts_plain (ns_counters ns') -> NC = false -> UQ ns' -> Inv ns'.
   Proof.
-    intros ns ns' [I1 I2 I3 I4 I5 I6 I7 I8 I9 I10 I11] E1 E2 E3 E4 E5 E6 E7 E8 E9 E10 E11 E12 E13 Hp Hnc.
+    intros ns ns' [I1 I2 I3 I4 I5 I6 I7 I8 I9 I10 I11] E1 E2 E3 E4 E5 E6 E7 E8 E9 E10 E11 E12 E13 Hp Hnc Huq.
     constructor; rewrite ?E1, ?E2, ?E3, ?E4, ?E5, ?E6, ?E7, ?E8, ?E9, ?E10, ?E11, ?E12, ?E13; try assumption.
-    split; [exact Hp|]. intro Hc. congruence.
+    split; [|exact Huq]. split; [exact Hp|]. intro Hc. congruence.
   Qed.
   Lemma dict_get_set_same : forall (V : Type) u (d : V) l, dict_get ident_eqb u (dict_set ident_eqb u d l) = Some d.
   Proof.
@@ -2917,10 +3091,10 @@ Section Sim.
     match k with 0 => kl | S k' => (pkey p, k') :: kl end.
 
   Definition CountOK (f : nat) : Prop :=
-    forall v lim B p ctx cid ie kl xcbs t2 k g st g' ns m pend,
+    forall v lim B p ctx cid ie kl rt xcbs t2 k g st g' ns m pend,
       loop_test orc imm f cid ie (XCount v lim B) k g = Ok (st, g') ->
-      frag (XCount v lim B) = true -> sok NC true (XCount v lim B) = true ->
-      ctx = 0 -> cid = 0 -> klb kl p -> C0 ns (kpre k kl p) ->
+      frag (XCount v lim B) = true -> sok NC rt (XCount v lim B) = true ->
+      klb kl p -> C0 ns cid (kpre k kl p) ->
       wired N0 (XCount v lim B) p ctx xcbs -> no_parloop xcbs = true ->
       pp p + nplaces (XCount v lim B) <= nP -> pt p + ntrans (XCount v lim B) <= nT ->
       t2 < nT -> ~ in_t (XCount v lim B) p t2 -> In (xplace (XCount v lim B) p) (preN N0 t2) ->
@@ -2930,15 +3104,15 @@ Section Sim.
       exists ns' m', Enters (startcbs (XCount v lim B) p ctx) ns ns' (is_done st) xcbs /\
                      Marks ns' m' /\ agrees_in (pp p) (pp p + nplaces (XCount v lim B)) m' (mlx st (XCount v lim B) p) /\
                      agrees_out (pp p) (pp p + nplaces (XCount v lim B)) m m' /\
-                     StartRes ns ns' g g' pend (svc_ids st) p (napis (XCount v lim B)) /\
-                     (act N0 ns' st (XCount v lim B) p ctx /\ C0 ns' (rch st (XCount v lim B) p kl)).
+                     StartRes ctx ns ns' g g' pend (svc_ids st) p (napis (XCount v lim B)) /\
+                     (act N0 ns' st (XCount v lim B) p ctx /\ C0 ns' cid (rch st (XCount v lim B) p kl)).
 
   Lemma count_case : forall f, (forall f0, f0 < f -> StartOK f0) -> CountOK f.
   Proof.
-    induction f as [|f IHf]; intros HS v lim B p ctx cid ie kl xcbs t2 k g st g' ns m pend
-                                    H Hf Hsok Hc0 Hcid0 Hklb Hcnt Hw Hnp HP HT Ht2 Hnt2 Hx2 Hinv Hgr Hctx Hlt Hm Hin HO; [discriminate H|].
-    pose proof Hsok as HsB. cbn [sok] in HsB. apply andb_prop in HsB. destruct HsB as [HsB1 HsB].
-    apply andb_prop in HsB1. destruct HsB1 as [Hnc _]. apply negb_true_iff in Hnc.
+    induction f as [|f IHf]; intros HS v lim B p ctx cid ie kl rt xcbs t2 k g st g' ns m pend
+                                    H Hf Hsok Hklb Hcnt Hw Hnp HP HT Ht2 Hnt2 Hx2 Hinv Hgr Hctx Hlt Hm Hin HO; [discriminate H|].
+    pose proof Hsok as HsB. cbn [sok] in HsB. apply andb_prop in HsB. destruct HsB as [Hnc HsB].
+    apply negb_true_iff in Hnc.
     pose proof (frag_count _ _ _ Hf) as HfB. pose proof Hw as Hwall. pose proof HO as HOall. pose proof Hx2 as Hx2all.
     rewrite nplaces_count, ntrans_count, napis_count in *. unfold in_t, in_p in *. rewrite ?nplaces_count, ?ntrans_count in *.
     cbn [xplace] in Hx2. cbn [entries] in Hin. cbn [startcbs].
@@ -2947,8 +3121,9 @@ Section Sim.
     pose proof (xplace_range_b B HfB (loop_p p)) as XB. cbn [loop_p pp] in XB.
     set (key := pkey p) in *.
     set (CW := CbCount key lim (pp p + 1) (pp p + 2) ctx) in *.
-    pose proof Hctx as (ac & Hac & Huc).
-    assert (Hu0 : a_uuid ac = ITest 0) by (rewrite Huc, Hcid0; reflexivity).
+    pose proof Hctx as (ac & Hac & Huc & Htk & Hcl).
+    assert (Hu0 : a_uuid ac = ITest cid) by exact Huc.
+    pose proof (proj2 (iv_cnt _ Hinv)) as Huq.
     assert (Hfresh : forall k0, ~ In (key, k0) (rev kl)).
     { apply in_rev_fresh. apply (klb_fresh kl p Hklb). }
     (* the count *)
@@ -2973,11 +3148,13 @@ Section Sim.
     { unfold s2, lim_pre, sA, set_cnt. destruct lim; repeat split; reflexivity. }
     destruct Fs2 as (F1 & F2 & F3 & F4 & F5 & F6 & F7 & F8 & F9 & F10 & F11 & F12 & F13 & F14 & F15 & F16 & F17).
     assert (Inv2 : Inv s2).
-    { apply (Inv_cnt ns s2 Hinv); try assumption. rewrite F11. apply cnts_plain_set; [apply (proj1 (iv_cnt _ Hinv))|apply enc_plain]. }
+    { apply (Inv_cnt ns s2 Hinv); try assumption.
+      - rewrite F11. apply cnts_plain_set; [apply (proj1 (proj1 (iv_cnt _ Hinv)))|apply enc_plain].
+      - eapply (UQ_cnt ns s2 cid _ Huq); [rewrite F11, Hu0; reflexivity|exact F8|exact F12|exact Hcl]. }
     assert (Gr2 : GR g1 s2 pend).
     { destruct Hgr as [G1 G2 G3 G4 G5 G6 G7 G8 G9 G10]. destruct Hsame as (T1 & T2 & T3 & T4 & T5 & T6 & T7).
       constructor; rewrite ?F12, ?F10, ?F13, ?F14, ?F4, ?F15, ?F16, ?F17; try congruence; try (symmetry; assumption). }
-    assert (Hc2 : counters_of (ITest 0) s2 = enc (rev ((key, k) :: kl))).
+    assert (Hc2 : counters_of (ITest cid) s2 = enc (rev ((key, k) :: kl))).
     { unfold counters_of. rewrite F11, Hu0, dict_get_set_same. reflexivity. }
     destruct (Z.of_nat k <? n)%Z eqn:Eb.
     - (* the test passes: the body is entered *)
@@ -2990,11 +3167,14 @@ Section Sim.
         - rewrite F16, (gr_aw _ _ _ Hgr). apply no_setplace_awaited.
         - apply (Marks_has_place s2 m _ Inv2); [eapply Marks_places; [exact F7|exact Hm]|lia].
         - exact Hev. }
-      assert (Hcx1 : CX s2 ctx cid ((v, k) :: ie) ((key, k) :: kl) true (loop_p p)).
-      { constructor; [exact Hc2|intro Hc; congruence|]. intros _. split; [exact Hc0|]. split; [exact Hcid0|]. apply klb_push. exact Hklb. }
+      assert (Hcx1 : CX s2 ctx cid ((v, k) :: ie) ((key, k) :: kl) rt (loop_p p)).
+      { constructor; [exact Hc2|intro Hc; congruence|]. apply klb_push. exact Hklb. }
+      assert (Hcf1 : CF ctx ns s2 (pa p) (pa p + napis_l B)).
+      { apply (CF_other ns s2 ctx cid _ _ Huq Hctx). intros u Hu. rewrite F11, Hu0, dict_get_set_ident.
+        destruct (ident_eqb u (ITest cid)) eqn:E; [apply ident_eqb_eq in E; contradiction|reflexivity]. }
       destruct (start_branch f HS CW (pp p) (pp p + 1) (pp p) [CW] B (loop_p p) (pt p) (pt p + 2)
                              (pp p) (pp p + (4 + nplaces_l B)) (pt p) (pt p + (3 + ntrans_b B)) (pa p) (pa p + napis_l B)
-                             ctx cid ((v, k) :: ie) ((key, k) :: kl) true t2 s2 g g1 r g2 ns m pend
+                             ctx cid ((v, k) :: ie) ((key, k) :: kl) rt t2 s2 g g1 r g2 ns m pend
                              ltac:(lia) ltac:(lia) ltac:(lia) ltac:(lia) HfB HsB WB
                              ltac:(cbn [loop_p pp]; lia) ltac:(cbn [loop_p pp]; lia) ltac:(cbn [loop_p pt]; lia)
                              ltac:(cbn [loop_p pt]; lia) ltac:(cbn [loop_p pa]; lia) ltac:(cbn [loop_p pa]; lia)
@@ -3012,9 +3192,10 @@ Section Sim.
       + (* the body completed at once: next test, one evaluation deeper *)
         rewrite app_nil_r in Gr', Aw'.
         assert (Hctx' : ctx_is ns' ctx cid).
-        { exists ac. split; [|exact Huc]. rewrite Ap' by lia. exact Hac. }
+        { apply (ctx_is_same ns ns' ctx cid Hctx); [apply Ap'; lia|].
+          rewrite (gr_tid _ _ _ Hgr), (gr_tid _ _ _ Gr'). lia. }
         assert (Ao' : agrees_out (pp p) (pp p + (4 + nplaces_l B)) m m') by exact Ao.
-        destruct (IHf ltac:(intros f0 Hf0; apply HS; lia) v lim B p ctx cid ie kl xcbs t2 (S k) g2 st g' ns' m' pend H Hf Hsok Hc0 Hcid0 Hklb Hcb Hwall Hnp)
+        destruct (IHf ltac:(intros f0 Hf0; apply HS; lia) v lim B p ctx cid ie kl rt xcbs t2 (S k) g2 st g' ns' m' pend H Hf Hsok Hklb Hcb Hwall Hnp)
           as (ns'' & m'' & Hen2 & Mk2 & Ai2 & Ao2 & Hres2 & Hact2);
           rewrite ?nplaces_count, ?ntrans_count, ?napis_count; unfold in_t, in_p; rewrite ?nplaces_count, ?ntrans_count;
           try assumption; try lia.
@@ -3032,19 +3213,20 @@ Section Sim.
         split; [exact HenF|]. split; [destruct (is_done st); exact Mk2|]. split; [exact Ai2|]. split; [exact Ao2'|]. split; [|destruct (is_done st); exact Hact2].
         apply StartRes_if.
         assert (E0 : svc_ids st = [] ++ svc_ids st) by reflexivity. rewrite E0.
-          eapply (StartRes_trans ns ns' ns'' g g2 g' pend [] (svc_ids st) p (napis_l B) p (napis_l B) p (napis_l B));
+          eapply (StartRes_trans ctx ns ns' ns'' g g2 g' pend [] (svc_ids st) p (napis_l B) p (napis_l B) p (napis_l B));
             [exact Hgr| |rewrite app_nil_r; exact Hres2|lia|lia|lia|lia].
           split; [exact Inv'|]. split; [rewrite app_nil_r; exact Gr'|]. split; [exact Ap'|].
           split; [rewrite app_nil_r; exact Aw'|]. split; [exact Sid'|exact Di'].
     - (* the limit is reached: the loop is left, its counter is forgotten *)
       mstep. cbn [is_done mlx svc_ids xplace].
       set (s3 := set_cnt (a_uuid ac) (dict_del lkey_eqb (KLoop key) (counters_of (a_uuid ac) s2)) s2).
-      assert (Hc3 : counters_of (ITest 0) s3 = enc (rev kl)).
+      assert (Hc3 : counters_of (ITest cid) s3 = enc (rev kl)).
       { unfold s3. rewrite Hu0, counters_of_set, Hc2. cbn [rev]. apply (enc_del_last key k (rev kl) Hfresh). }
       assert (Inv3 : Inv s3).
-      { apply (Inv_cnt s2 s3 Inv2); try reflexivity; [|exact Hnc].
-        unfold s3, set_cnt. cbn [ns_counters set]. apply cnts_plain_set; [apply (proj1 (iv_cnt _ Inv2))|].
-        rewrite Hu0, Hc2. cbn [rev]. rewrite (enc_del_last key k (rev kl) Hfresh). apply enc_plain. }
+      { apply (Inv_cnt s2 s3 Inv2); try reflexivity; [|exact Hnc|].
+        - unfold s3, set_cnt. cbn [ns_counters set]. apply cnts_plain_set; [apply (proj1 (proj1 (iv_cnt _ Inv2)))|].
+          rewrite Hu0, Hc2. cbn [rev]. rewrite (enc_del_last key k (rev kl) Hfresh). apply enc_plain.
+        - eapply (UQ_cnt s2 s3 cid _ (proj2 (iv_cnt _ Inv2))); [unfold s3, set_cnt; cbn [ns_counters set]; rewrite Hu0; reflexivity|reflexivity|reflexivity|rewrite F12; exact Hcl]. }
       assert (Gr3 : GR g1 s3 pend) by (destruct Gr2; constructor; assumption).
       assert (Hopen : forall s', EvalTo tasks env (placed (pp p + 2) s3) s' -> RunCb tasks env CW ns s').
       { intros s' Hev.
@@ -3060,7 +3242,10 @@ Section Sim.
       exists ns', m'. split; [exact Hen|]. split; [exact Mk|]. split; [exact Ai|]. split; [exact Ao|].
       split; [|split; [exact I|cbn [rch]; unfold C0, counters_of; rewrite Ec; exact Hc3]].
       split; [exact Inv'|]. split; [rewrite app_nil_r; exact Gr'|]. split; [intros k0 _; rewrite Ea; reflexivity|].
-      split; [rewrite app_nil_r; exact T7|]. split; [rewrite T2; apply Nat.le_refl|].
+      split; [rewrite app_nil_r; exact T7|]. split; [rewrite T1, T2; split; [apply Nat.le_refl|split; [apply Nat.le_refl|]]|].
+      { apply (CF_other ns ns' ctx cid _ _ Huq Hctx). intros u Hu. rewrite Ec. unfold s3, set_cnt. cbn [ns_counters set].
+        rewrite Hu0, dict_get_set_ident, F11, Hu0, dict_get_set_ident.
+        destruct (ident_eqb u (ITest cid)) eqn:E; [apply ident_eqb_eq in E; contradiction|reflexivity]. }
       exists []. split; [rewrite Ed; reflexivity|constructor].
   Qed.
 
@@ -3078,10 +3263,7 @@ Section Sim.
     - eapply (start_cond_case f); eassumption.
     - cbn [start_stmt] in H. eapply (loop_case f); try eassumption. intros f0 Hf0. apply IH. lia.
     - cbn [start_stmt] in H.
-      assert (Hrt : rt = true).
-      { cbn [sok] in Hsok. apply andb_prop in Hsok. destruct Hsok as [Hs _]. apply andb_prop in Hs. apply Hs. }
-      subst rt. destruct (cx_rt _ _ _ _ _ _ _ Hcx eq_refl) as (Hc0 & Hcid0 & Hklb).
-      eapply (count_case f); try eassumption; [intros f0 Hf0; apply IH; lia|exact (cx_c0 _ _ _ _ _ _ _ Hcx)].
+      eapply (count_case f); try eassumption; [intros f0 Hf0; apply IH; lia|exact (cx_rt _ _ _ _ _ _ _ Hcx)|exact (cx_c0 _ _ _ _ _ _ _ Hcx)].
   Qed.
 
   Theorem start_block_ok : forall f, StartBK f.
@@ -3099,33 +3281,33 @@ Section Sim.
   Qed.
 
   (* the two ways a delivery into a component ends *)
-  Definition DoneForm (ns : NS) (m : list nat) (g g' : G) (pend0 : list nat) (plo phi alo ahi : nat)
+  Definition DoneForm (ctx cid : nat) (ns : NS) (m : list nat) (g g' : G) (pend0 : list nat) (plo phi alo ahi : nat)
              (xcbs : list cb) (x : nat) (kl : list (site * nat)) : Prop :=
     exists ns' m', Exits ns ns' xcbs /\ Marks ns' m' /\ agrees_in plo phi m' [x] /\ agrees_out plo phi m m' /\
-                   (Post ns ns' g g' pend0 alo ahi /\ C0 ns' kl).
+                   (Post ctx ns ns' g g' pend0 alo ahi /\ C0 ns' cid kl).
 
   (* what the delivery lemmas assume about the loop counters: [kc] is the chain of the running
-     counting loops of the production task, [kl] the part of it above the component *)
+     counting loops of the task instance [cid], [kl] the part of it above the component *)
   Record CD (ns : NS) (ctx cid : nat) (ie : ienv) (kl : list (site * nat)) (rt : bool) (p : pos)
          (kc : list (site * nat)) : Prop := {
-    cd_c0 : C0 ns kc;
+    cd_c0 : C0 ns cid kc;
     cd_ie : NC = true -> ie = [];
-    cd_rt : rt = true -> ctx = 0 /\ cid = 0 /\ klb kl p
+    cd_rt : klb kl p
   }.
   Lemma CD_CX : forall ns ctx cid ie kl rt p, CD ns ctx cid ie kl rt p kl -> CX ns ctx cid ie kl rt p.
   Proof. intros ns ctx cid ie kl rt p [A B C]. constructor; assumption. Qed.
   Lemma CD_pos : forall ns ns' ctx cid ie kl rt p q kc kc',
-      CD ns ctx cid ie kl rt p kc -> C0 ns' kc' -> List.length (s_pre (psi p)) <= List.length (s_pre (psi q)) ->
+      CD ns ctx cid ie kl rt p kc -> C0 ns' cid kc' -> List.length (s_pre (psi p)) <= List.length (s_pre (psi q)) ->
       CD ns' ctx cid ie kl rt q kc'.
   Proof.
     intros ns ns' ctx cid ie kl rt p q kc kc' [H1 H2 H3] Hc Hle. constructor; [exact Hc|exact H2|].
-    intro Hr. destruct (H3 Hr) as (A & B & C). split; [exact A|]. split; [exact B|]. eapply klb_sub; eassumption.
+    eapply klb_sub; eassumption.
   Qed.
 
-  Definition StayForm (ns : NS) (m : list nat) (g g' : G) (pend0 : list nat) (plo phi alo ahi : nat)
+  Definition StayForm (ctx : nat) (ns : NS) (m : list nat) (g g' : G) (pend0 : list nat) (plo phi alo ahi : nat)
              (ml' : list nat) (ns' : NS) : Prop :=
     exists m', Steps ns ns' /\ Marks ns' m' /\ agrees_in plo phi m' ml' /\ agrees_out plo phi m m' /\
-               Post ns ns' g g' pend0 alo ahi.
+               Post ctx ns ns' g g' pend0 alo ahi.
 
   Definition DelS (f : nat) : Prop :=
     forall s p ctx cid ie kl rt xcbs t2 st id g st' g' ns m pend pend0 finp,
@@ -3140,9 +3322,9 @@ Section Sim.
       (forall q, in_p s p q -> cnt m q = cnt (ml st s p) q + (if Nat.eqb q finp then 1 else 0)) ->
       Hout (pp p) (pp p + nplaces s) (pt p) (pt p + ntrans s) t2 m ->
       if is_done st'
-      then DoneForm ns m g g' pend0 (pp p) (pp p + nplaces s) (pa p) (pa p + napis s) xcbs (xplace s p) kl
-      else exists ns', StayForm ns m g g' pend0 (pp p) (pp p + nplaces s) (pa p) (pa p + napis s) (ml st' s p) ns' /\
-                       (act N0 ns' st' s p ctx /\ C0 ns' (rch st' s p kl)).
+      then DoneForm ctx cid ns m g g' pend0 (pp p) (pp p + nplaces s) (pa p) (pa p + napis s) xcbs (xplace s p) kl
+      else exists ns', StayForm ctx ns m g g' pend0 (pp p) (pp p + nplaces s) (pa p) (pa p + napis s) (ml st' s p) ns' /\
+                       (act N0 ns' st' s p ctx /\ C0 ns' cid (rch st' s p kl)).
 
   Definition DelB (f : nat) : Prop :=
     forall l bp ctx cid ie kl rt xcbs t2 i sti id g r g' ns m pend pend0 finp,
@@ -3157,11 +3339,11 @@ Section Sim.
       (forall q, in_pb l bp q -> cnt m q = cnt (ml_block l bp i sti) q + (if Nat.eqb q finp then 1 else 0)) ->
       Hout (pp bp) (pp bp + nplaces_l l) (pt bp) (pt bp + ntrans_b l) t2 m ->
       match r with
-      | None => DoneForm ns m g g' pend0 (pp bp) (pp bp + nplaces_l l) (pa bp) (pa bp + napis_l l) xcbs (xplace_b l bp) kl
+      | None => DoneForm ctx cid ns m g g' pend0 (pp bp) (pp bp + nplaces_l l) (pa bp) (pa bp + napis_l l) xcbs (xplace_b l bp) kl
       | Some (j, st') =>
-        exists ns', StayForm ns m g g' pend0 (pp bp) (pp bp + nplaces_l l) (pa bp) (pa bp + napis_l l)
+        exists ns', StayForm ctx ns m g g' pend0 (pp bp) (pp bp + nplaces_l l) (pa bp) (pa bp + napis_l l)
                              (ml_block l bp j st') ns' /\
-                    (act_block N0 ns' l bp ctx j st' /\ C0 ns' (rch_block l bp j st' kl))
+                    (act_block N0 ns' l bp ctx j st' /\ C0 ns' cid (rch_block l bp j st' kl))
       end.
 
   (* after statement i of a block has exited, the connection fires and the block goes on from
@@ -3177,15 +3359,15 @@ Section Sim.
       Hout (pp bp) (pp bp + nplaces_l l) (pt bp) (pt bp + ntrans_b l) t2 m ->
       Hout (pp (spos l bp i)) (pp (spos l bp i) + nplaces s1) (pt (spos l bp i)) (pt (spos l bp i) + ntrans s1)
            (pt (spos l bp i) - 1) m ->
-      DoneForm ns m g g1 pend0 (pp (spos l bp i)) (pp (spos l bp i) + nplaces s1)
+      DoneForm ctx cid ns m g g1 pend0 (pp (spos l bp i)) (pp (spos l bp i) + nplaces s1)
                (pa (spos l bp i)) (pa (spos l bp i) + napis s1) [] (xplace s1 (spos l bp i)) kl ->
       run_block orc imm f cid ie l (S i) g1 = Ok (r', g') ->
       match r' with
-      | None => DoneForm ns m g g' pend0 (pp bp) (pp bp + nplaces_l l) (pa bp) (pa bp + napis_l l) xcbs (xplace_b l bp) kl
+      | None => DoneForm ctx cid ns m g g' pend0 (pp bp) (pp bp + nplaces_l l) (pa bp) (pa bp + napis_l l) xcbs (xplace_b l bp) kl
       | Some (j, st') =>
-        exists ns'', StayForm ns m g g' pend0 (pp bp) (pp bp + nplaces_l l) (pa bp) (pa bp + napis_l l)
+        exists ns'', StayForm ctx ns m g g' pend0 (pp bp) (pp bp + nplaces_l l) (pa bp) (pa bp + napis_l l)
                               (ml_block l bp j st') ns'' /\
-                     (act_block N0 ns'' l bp ctx j st' /\ C0 ns'' (rch_block l bp j st' kl))
+                     (act_block N0 ns'' l bp ctx j st' /\ C0 ns'' cid (rch_block l bp j st' kl))
       end.
   Proof.
     intros f l bp ctx cid ie kl rt kc xcbs t2 i s1 s' g g1 r' g' ns m pend pend0
@@ -3253,11 +3435,11 @@ Section Sim.
       apply (MS_fire1 nsa m' c trc _ _ Inva Mka HcT Htrc Henc Hdisc C3 (no_parloop_startcbs _ _ _)). }
     assert (Ao2' : agrees_out (pp bp) (pp bp + nplaces_l l) m m2).
     { intros q Hq. rewrite (Ao2 q Hq). apply Hout''. exact Hq. }
-    assert (Hpost2 : Post ns ns2 g g' pend0 (pa bp) (pa bp + napis_l l)).
+    assert (Hpost2 : Post ctx ns ns2 g g' pend0 (pa bp) (pa bp + napis_l l)).
     { split; [exact Inv2|]. split.
-      - eapply (Frame_trans ns nsa ns2); [exact Fra| |lia|lia| |].
-        + eapply (Frame_trans nsa nsf ns2 (pa bp) (pa bp + napis_l l));
-            [apply (Frame_fire nsa trc (pa bp))|apply (Frame_of_StartRes _ _ _ _ _ _ _ _ Grf Hres2)|lia|lia|lia|lia].
+      - eapply (Frame_trans ctx ns nsa ns2); [exact Fra| |lia|lia| |].
+        + eapply (Frame_trans ctx nsa nsf ns2 (pa bp) (pa bp + napis_l l));
+            [apply (Frame_fire ctx nsa trc (pa bp))|apply (Frame_of_StartRes _ _ _ _ _ _ _ _ _ Grf Hres2)|lia|lia|lia|lia].
         + lia.
         + lia.
       - exists (new1 ++ ids_opt r'). split; [rewrite Aw2, Aw1, app_assoc; reflexivity|].
@@ -3286,13 +3468,13 @@ Section Sim.
       end.
   Proof. reflexivity. Qed.
 
-  Lemma DoneForm_widen : forall ns m g g' pend0 plo phi alo ahi PLO PHI ALO AHI xcbs x kl,
-      DoneForm ns m g g' pend0 plo phi alo ahi xcbs x kl ->
+  Lemma DoneForm_widen : forall ctx cid ns m g g' pend0 plo phi alo ahi PLO PHI ALO AHI xcbs x kl,
+      DoneForm ctx cid ns m g g' pend0 plo phi alo ahi xcbs x kl ->
       PLO <= plo -> phi <= PHI -> ALO <= alo -> ahi <= AHI ->
       (forall q, PLO <= q < PHI -> ~ (plo <= q < phi) -> cnt m q = 0) -> plo <= x < phi ->
-      DoneForm ns m g g' pend0 PLO PHI ALO AHI xcbs x kl.
+      DoneForm ctx cid ns m g g' pend0 PLO PHI ALO AHI xcbs x kl.
   Proof.
-    intros ns m g g' pend0 plo phi alo ahi PLO PHI ALO AHI xcbs x kl (nsa & m' & Hex & Mka & Aia & Aoa & Hpost & Hc) H1 H2 H3 H4 Hz Hx.
+    intros ctx cid ns m g g' pend0 plo phi alo ahi PLO PHI ALO AHI xcbs x kl (nsa & m' & Hex & Mka & Aia & Aoa & Hpost & Hc) H1 H2 H3 H4 Hz Hx.
     exists nsa, m'. split; [exact Hex|]. split; [exact Mka|].
     split; [|split; [eapply agrees_out_widen; [exact Aoa|lia|lia]|split; [eapply Post_widen; [exact Hpost|lia|lia]|exact Hc]]].
     eapply (agrees_in_widen plo phi); [exact Aia|exact Aoa|lia|lia|].
@@ -3379,11 +3561,11 @@ Section Sim.
                    cnt m q = cnt (ml st (XCall t at_ ins bd) p) q + (if Nat.eqb q finp then 1 else 0)) ->
         Hout (pp p) (pp p + nplaces (XCall t at_ ins bd)) (pt p) (pt p + ntrans (XCall t at_ ins bd)) t2 m ->
         if is_done st'
-        then DoneForm ns m g g' pend0 (pp p) (pp p + nplaces (XCall t at_ ins bd)) (pa p) (pa p + napis (XCall t at_ ins bd))
+        then DoneForm ctx cid ns m g g' pend0 (pp p) (pp p + nplaces (XCall t at_ ins bd)) (pa p) (pa p + napis (XCall t at_ ins bd))
                       xcbs (xplace (XCall t at_ ins bd) p) kl
-        else exists ns', StayForm ns m g g' pend0 (pp p) (pp p + nplaces (XCall t at_ ins bd)) (pa p)
+        else exists ns', StayForm ctx ns m g g' pend0 (pp p) (pp p + nplaces (XCall t at_ ins bd)) (pa p)
                                   (pa p + napis (XCall t at_ ins bd)) (ml st' (XCall t at_ ins bd) p) ns' /\
-                         (act N0 ns' st' (XCall t at_ ins bd) p ctx /\ C0 ns' (rch st' (XCall t at_ ins bd) p kl)).
+                         (act N0 ns' st' (XCall t at_ ins bd) p ctx /\ C0 ns' cid (rch st' (XCall t at_ ins bd) p kl)).
   Proof.
     intros f HB t at_ ins bd p ctx cid ie kl rt xcbs t2 st id g st' g' ns m pend pend0 finp
            H Hf Hsok Hcd Hw Hnp HP HT Ht2 Hnt2 Hx2 Hinv Hgr Hrem Hact Hnd Hctx Hlt Hm Hd Hin HO.
@@ -3391,33 +3573,33 @@ Section Sim.
     cbn [sok] in Hsok. apply andb_prop in Hsok. destruct Hsok as [Hidx Hsokb].
     pose proof (subst_params_ok ie ins (cd_ie _ _ _ _ _ _ _ _ Hcd) Hidx) as Hsub.
     destruct st as [|id0|cid' i sti|sts|b i sti|k i sti|sts]; cbn [act] in Hact; try contradiction; try discriminate Hnd.
-    destruct Hact as ((il & Hapi) & Hndi & Hfresh & Ha).
+    destruct Hact as (((il & Hapi) & Hcb0) & Hndi & Hfresh & Ha).
     cbn [wired] in Hw. destruct Hw as [Hapi0 Hwb].
     rewrite nplaces_call, ntrans_call, napis_call in *. cbn [xplace] in *.
     set (bp := body_pos t p) in *.
     assert (Hab : act_block N0 ns bd bp (pa p) i sti) by (split; [exact Hndi|split; [exact Hfresh|exact Ha]]).
-    assert (Hctx' : ctx_is ns (pa p) cid') by (eexists; split; [exact Hapi|reflexivity]).
+    assert (Hctx' : ctx_is ns (pa p) cid').
+    { eexists; split; [exact Hapi|]. split; [reflexivity|]. split; [reflexivity|].
+      destruct (proj2 (iv_cnt _ Hinv)) as (_ & U2 & _). destruct (U2 _ _ cid' Hapi eq_refl eq_refl) as [Hl|[Hz _]]; [exact Hl|lia]. }
+    pose proof (cd_c0 _ _ _ _ _ _ _ _ Hcd) as Hcc. rewrite rch_call in Hcc.
     cbn [deliver] in H. mstep as r g1 E1.
     destruct r as [r|]; [|mstep; discriminate].
     assert (Hnp' : no_parloop (CbTF (pa p) :: xcbs) = true) by exact Hnp.
-    assert (Hcdb : CD ns (pa p) cid' [] kl false bp (rch_block bd bp i sti kl)).
-    { constructor; [|reflexivity|discriminate]. change (rch_block bd bp i sti kl) with (rchb bd bp (Some (i, sti)) kl).
-      rewrite (rchb_nocount bd bp (Some (i, sti)) kl Hsokb).
-      pose proof (cd_c0 _ _ _ _ _ _ _ _ Hcd) as Hc. rewrite rch_call in Hc. exact Hc. }
-    pose proof (HB bd bp (pa p) cid' [] kl false (CbTF (pa p) :: xcbs) t2 i sti id g r g1 ns m pend pend0 finp E1 Hfb Hsokb Hcdb Hwb Hnp'
+    assert (Hcdb : CD ns (pa p) cid' [] [] rt bp (rch_block bd bp i sti [])).
+    { constructor; [exact Hcb0|reflexivity|intros key k []]. }
+    pose proof (HB bd bp (pa p) cid' [] [] rt (CbTF (pa p) :: xcbs) t2 i sti id g r g1 ns m pend pend0 finp E1 Hfb Hsokb Hcdb Hwb Hnp'
                    HP HT Ht2 Hnt2 Hx2 Hinv Hgr Hrem Hab Hctx' ltac:(cbn [bp body_pos pa]; lia) Hm Hd Hin HO) as Hres.
     destruct r as [[j st'']|].
     - (* still inside the body *)
       unfold ret in H. injection H as Hs Hg. subst st' g1. cbn [is_done].
       destruct Hres as (ns' & (m' & St & Mk & Ai & Ao & Hpost) & Hab' & Hc').
-      change (rch_block bd bp j st'' kl) with (rchb bd bp (Some (j, st'')) kl) in Hc'.
-      rewrite (rchb_nocount bd bp (Some (j, st'')) kl Hsokb) in Hc'.
       exists ns'. split.
       + exists m'. split; [exact St|]. split; [exact Mk|]. split; [rewrite ml_call; exact Ai|]. split; [exact Ao|].
-        eapply Post_widen; [exact Hpost|cbn [bp body_pos pa]; lia|cbn [bp body_pos pa]; lia].
-      + split; [|rewrite rch_call; exact Hc'].
-        destruct Hab' as (D' & Fr' & A'). cbn [act]. destruct Hpost as (_ & Fr & _).
-        split; [exists il; rewrite (fr_apis _ _ _ _ Fr) by (cbn [bp body_pos pa]; lia); exact Hapi|].
+        eapply Post_ctx; [exact Hpost|cbn [bp body_pos pa]; lia|cbn [bp body_pos pa]; lia|lia].
+      + destruct Hab' as (D' & Fr' & A'). destruct Hpost as (_ & Fr & _).
+        split; [|rewrite rch_call; apply (C0_frame (pa p) ns ns' ctx cid kl _ _ Hctx Fr); [cbn [bp body_pos pa]; lia|lia|exact Hcc]].
+        cbn [act].
+        split; [split; [exists il; rewrite (fr_apis _ _ _ _ _ Fr) by (cbn [bp body_pos pa]; lia); exact Hapi|exact Hc']|].
         split; [exact D'|]. split; [exact Fr'|exact A'].
     - (* the body is complete: task finished *)
       unfold bind at 1 in H. unfold emit at 1 in H.
@@ -3426,8 +3608,10 @@ Section Sim.
       unfold ret in H. injection H as Hs Hg. subst st'. cbn [is_done].
       set (a1 := with_uuid (ITest cid') (call_api il t at_ ins ctx (pa p))) in *.
       assert (Hapia : nth_error (ns_apis nsa) (pa p) = Some a1).
-      { rewrite (fr_apis _ _ _ _ Fra) by (cbn [bp body_pos pa]; lia). exact Hapi. }
+      { rewrite (fr_apis _ _ _ _ _ Fra) by (cbn [bp body_pos pa]; lia). exact Hapi. }
       assert (Hctxa : ctx_is nsa ctx cid) by (eapply ctx_is_frame; [exact Hctx|exact Fra|cbn [bp body_pos pa]; lia]).
+      assert (Hcca : C0 nsa cid kl).
+      { apply (C0_frame (pa p) ns nsa ctx cid kl _ _ Hctx Fra); [cbn [bp body_pos pa]; lia|lia|exact Hcc]. }
       destruct (sim_fin TF (pa p) a1 (Some cid) false g1 g' nsa (pend0 ++ new) (pend0 ++ new) (or_intror eq_refl) Inva Gra Hapia)
         as (Hcbs & Invb & Grb & Plb & Apb & Dib).
       { cbn [octx_is a1 with_uuid call_api a_ctx]. split; [exact Hctxa|lia]. }
@@ -3439,11 +3623,12 @@ Section Sim.
         pose proof (RunCb_TF (pa p) nsa a1 (proj1 (iv_ls _ Inva)) Hapia) as Hr.
         cbn [a1 with_uuid call_api a_name] in Hr. rewrite Hname in Hr. exact Hr. }
       split; [eapply Marks_places; [exact Plb|exact Mka]|]. split; [exact Aia|]. split; [exact Aoa|].
-      split; [|apply (C0_same nsa _ kl (nf_counters _ _ _ _) Hca)].
+      split; [|apply (C0_same nsa _ cid kl (nf_counters _ _ _ _) Hcca)].
       split; [exact Invb|]. split.
-      + eapply (Frame_trans ns nsa _ (pa p) (pa p + S (napis_l bd)) (pa bp) (pa bp + napis_l bd) (pa p) (pa p));
-          [exact Fra| |cbn [bp body_pos pa]; lia|cbn [bp body_pos pa]; lia|lia|lia].
-        constructor; [intros k _; rewrite Apb; reflexivity|rewrite nf_sid; apply Nat.le_refl|].
+      + eapply (Frame_trans ctx ns nsa _ (pa p) (pa p + S (napis_l bd)) (pa p) (pa p + S (napis_l bd)) (pa p) (pa p));
+          [apply (Frame_ctx (pa p) ctx _ _ _ _ _ _ Fra); cbn [bp body_pos pa]; lia| |lia|lia|lia|lia].
+        constructor; [intros k _; rewrite Apb; reflexivity| |].
+        { rewrite nf_sid, nf_tid. split; [apply Nat.le_refl|split; [apply Nat.le_refl|apply CF_same; apply nf_counters]]. }
         exists []. split; [rewrite Dib; reflexivity|constructor].
       + exists new. split; [rewrite <- Hg; exact Aw|exact Grb].
   Qed.
@@ -3544,8 +3729,8 @@ Section Sim.
         (forall K, MS (ns, [] :: K) (ns', [] :: UnwE (if all_done sts' then k else []) K)) /\
         Marks ns' m' /\ agrees_in (pp q0) (pp q0 + nplaces_l bs) m' (ml_list sts' bs q0) /\
         agrees_out (pp q0) (pp q0 + nplaces_l bs) m m' /\
-        Post ns ns' g g' pend0 (pa q0) (pa q0 + napis_l bs) /\
-        (act_list N0 ns' sts' bs q0 ctx /\ C0 ns' kl).
+        Post ctx ns ns' g g' pend0 (pa q0) (pa q0 + napis_l bs) /\
+        (act_list N0 ns' sts' bs q0 ctx /\ C0 ns' cid kl).
 
   Lemma del_list_case : forall fl, (forall f0, f0 < fl -> DelS f0) -> DelL fl.
   Proof.
@@ -3605,8 +3790,8 @@ Section Sim.
                                      Marks ns' m' /\
                                      agrees_in (pp pk) (pp pk + nplaces b) m' (mlx st' b pk) /\
                                      agrees_out (pp pk) (pp pk + nplaces b) m m' /\
-                                     Post ns ns' g g' pend0 (pa pk) (pa pk + napis b) /\
-                                     (act N0 ns' st' b pk ctx /\ C0 ns' kl)).
+                                     Post ctx ns ns' g g' pend0 (pa pk) (pa pk + napis b) /\
+                                     (act N0 ns' st' b pk ctx /\ C0 ns' cid kl)).
     { destruct (is_done st') eqn:D.
       - destruct Hres as (nsa & m' & Hex & Mka & Aia & Aoa & Hpost & Hca).
         apply is_done_RDone in D. subst st'. cbn [mlx].
@@ -3641,7 +3826,8 @@ Section Sim.
     pose proof Hpost as (Inv' & Fr' & _).
     assert (Hal' : act_list N0 ns' (update_nth k st' sts) bs q0 ctx).
     { apply (act_list_update N0 ns ns' sts bs q0 ctx k st' b Hf Hal Hb Hact);
-        [apply (fr_apis _ _ _ _ Fr')|apply (fr_sid _ _ _ _ Fr')|apply (fr_dict _ _ _ _ Fr')]. }
+        [apply (fr_apis _ _ _ _ _ Fr')|apply (fr_sid _ _ _ _ _ Fr')|apply (fr_dict _ _ _ _ _ Fr')|].
+      intros a ac Ha Hq Hka Hta. destruct (fr_sid _ _ _ _ _ Fr') as (_ & _ & C). apply (C a ac Ha ltac:(lia) Hka Hta). }
     exists ns', m', kk. split; [exact St|]. split; [exact Mk|].
     split; [eapply (list_finish ns ns' sts bs q0 ctx k st st' b m m' finp); eassumption|].
     split; [eapply agrees_out_widen; [exact Ao|lia|lia]|]. split; [eapply Post_widen; [exact Hpost|lia|lia]|split; [exact Hal'|exact Hcc]].
@@ -3661,11 +3847,11 @@ Section Sim.
                    cnt m q = cnt (ml st (XParallel bs) p) q + (if Nat.eqb q finp then 1 else 0)) ->
         Hout (pp p) (pp p + nplaces (XParallel bs)) (pt p) (pt p + ntrans (XParallel bs)) t2 m ->
         if is_done st'
-        then DoneForm ns m g g' pend0 (pp p) (pp p + nplaces (XParallel bs)) (pa p) (pa p + napis (XParallel bs))
+        then DoneForm ctx cid ns m g g' pend0 (pp p) (pp p + nplaces (XParallel bs)) (pa p) (pa p + napis (XParallel bs))
                       xcbs (xplace (XParallel bs) p) kl
-        else exists ns', StayForm ns m g g' pend0 (pp p) (pp p + nplaces (XParallel bs)) (pa p)
+        else exists ns', StayForm ctx ns m g g' pend0 (pp p) (pp p + nplaces (XParallel bs)) (pa p)
                                   (pa p + napis (XParallel bs)) (ml st' (XParallel bs) p) ns' /\
-                         (act N0 ns' st' (XParallel bs) p ctx /\ C0 ns' (rch st' (XParallel bs) p kl)).
+                         (act N0 ns' st' (XParallel bs) p ctx /\ C0 ns' cid (rch st' (XParallel bs) p kl)).
   Proof.
     intros f HL bs p ctx cid ie kl rt xcbs t2 st id g st' g' ns m pend pend0 finp
            H Hf Hsok Hcd Hw Hnp HP HT Ht2 Hnt2 Hx2 Hinv Hgr Hrem Hact Hnd Hctx Hlt Hm Hd Hin HO.
@@ -3763,10 +3949,10 @@ Section Sim.
         Hout PL PH TL TH t2 m ->
         deliver_block orc imm f cid ie B i sti id g = Ok (Some r, g') ->
         match r with
-        | None => DoneForm ns m g g' pend0 PL PH AL AH xcbs x kl
+        | None => DoneForm ctx cid ns m g g' pend0 PL PH AL AH xcbs x kl
         | Some (j, st') =>
-          exists ns', StayForm ns m g g' pend0 PL PH AL AH (ml_block B cb j st') ns' /\
-                      (act_block N0 ns' B cb ctx j st' /\ C0 ns' (rch_block B cb j st' kl))
+          exists ns', StayForm ctx ns m g g' pend0 PL PH AL AH (ml_block B cb j st') ns' /\
+                      (act_block N0 ns' B cb ctx j st' /\ C0 ns' cid (rch_block B cb j st' kl))
         end.
   Proof.
     intros f HB B cb sb x PL PH TL TH AL AH ctx cid ie kl rt xcbs t2 i sti id g r g' ns m pend pend0 finp
@@ -3812,7 +3998,8 @@ Section Sim.
       split; [exact Mk5|]. split; [exact Ai5|]. split; [exact Ao5|].
       split; [|exact Hca].
       split; [exact Inv5|]. split.
-      + destruct Fra as [A1 S1 D1]. constructor; [intros k0 Hk0; apply A1; lia|exact S1|exact D1].
+      + destruct Fra as [A1 (S1 & S2 & C1) D1]. constructor; [intros k0 Hk0; apply A1; lia| |exact D1].
+        split; [exact S1|]. split; [exact S2|]. intros k0 ac0 Hk0. apply C1. lia.
       + exists new. split; [exact Aw|apply GR_fire; exact Gra].
   Qed.
 
@@ -3833,10 +4020,10 @@ Section Sim.
         Hout PL PH TL TH t2 m ->
         deliver_block orc imm f cid ie B i sti id g = Ok (Some r, g') ->
         match r with
-        | None => DoneForm ns m g g' pend0 PL PH AL AH xcbs (PL + 3) kl
+        | None => DoneForm ctx cid ns m g g' pend0 PL PH AL AH xcbs (PL + 3) kl
         | Some (j, st') =>
-          exists ns', StayForm ns m g g' pend0 PL PH AL AH (ml_block B cb j st') ns' /\
-                      (act_block N0 ns' B cb ctx j st' /\ C0 ns' (rch_block B cb j st' kl))
+          exists ns', StayForm ctx ns m g g' pend0 PL PH AL AH (ml_block B cb j st') ns' /\
+                      (act_block N0 ns' B cb ctx j st' /\ C0 ns' cid (rch_block B cb j st' kl))
         end.
   Proof.
     intros f HB B cb sb PL PH TL TH AL AH ctx cid ie kl rt xcbs t2 i sti id g r g' ns m pend pend0 finp
@@ -3859,11 +4046,11 @@ Section Sim.
                    cnt m q = cnt (ml st (XCond e P F) p) q + (if Nat.eqb q finp then 1 else 0)) ->
         Hout (pp p) (pp p + nplaces (XCond e P F)) (pt p) (pt p + ntrans (XCond e P F)) t2 m ->
         if is_done st'
-        then DoneForm ns m g g' pend0 (pp p) (pp p + nplaces (XCond e P F)) (pa p) (pa p + napis (XCond e P F))
+        then DoneForm ctx cid ns m g g' pend0 (pp p) (pp p + nplaces (XCond e P F)) (pa p) (pa p + napis (XCond e P F))
                       xcbs (xplace (XCond e P F) p) kl
-        else exists ns', StayForm ns m g g' pend0 (pp p) (pp p + nplaces (XCond e P F)) (pa p)
+        else exists ns', StayForm ctx ns m g g' pend0 (pp p) (pp p + nplaces (XCond e P F)) (pa p)
                                   (pa p + napis (XCond e P F)) (ml st' (XCond e P F) p) ns' /\
-                         (act N0 ns' st' (XCond e P F) p ctx /\ C0 ns' (rch st' (XCond e P F) p kl)).
+                         (act N0 ns' st' (XCond e P F) p ctx /\ C0 ns' cid (rch st' (XCond e P F) p kl)).
   Proof.
     intros f HB e P F p ctx cid ie kl rt xcbs t2 st id g st' g' ns m pend pend0 finp
            H Hf Hsok Hcd Hw Hnp HP HT Ht2 Hnt2 Hx2 Hinv Hgr Hrem Hact Hnd Hctx Hlt Hm Hd Hin HO.
@@ -3912,13 +4099,13 @@ Section Sim.
     pose proof (xplace_range_b F HfF (cond_f P p)) as XF. cbn [cond_f pp] in XF.
     cbn [deliver] in H. mstep as r g1 E1. destruct r as [r|]; [|mstep; discriminate].
     assert (Hres : match r with
-        | None => DoneForm ns m g g1 pend0 (pp p) (pp p + (4 + nplaces_l P + nplaces_l F)) (pa p) (pa p + (napis_l P + napis_l F))
+        | None => DoneForm ctx cid ns m g g1 pend0 (pp p) (pp p + (4 + nplaces_l P + nplaces_l F)) (pa p) (pa p + (napis_l P + napis_l F))
                            xcbs (pp p + 3) kl
         | Some (j, st') =>
-          exists ns', StayForm ns m g g1 pend0 (pp p) (pp p + (4 + nplaces_l P + nplaces_l F)) (pa p) (pa p + (napis_l P + napis_l F))
+          exists ns', StayForm ctx ns m g g1 pend0 (pp p) (pp p + (4 + nplaces_l P + nplaces_l F)) (pa p) (pa p + (napis_l P + napis_l F))
                                (ml_block (if b then P else F) (if b then cond_p p else cond_f P p) j st') ns' /\
                       (act_block N0 ns' (if b then P else F) (if b then cond_p p else cond_f P p) ctx j st' /\
-                       C0 ns' (rch_block (if b then P else F) (if b then cond_p p else cond_f P p) j st' kl))
+                       C0 ns' cid (rch_block (if b then P else F) (if b then cond_p p else cond_f P p) j st' kl))
         end).
     { destruct b.
       - apply (del_cond_branch f HB P (cond_p p) (pt p + 2)
@@ -3976,11 +4163,11 @@ Section Sim.
                    cnt m q = cnt (ml st (XWhile e B) p) q + (if Nat.eqb q finp then 1 else 0)) ->
         Hout (pp p) (pp p + nplaces (XWhile e B)) (pt p) (pt p + ntrans (XWhile e B)) t2 m ->
         if is_done st'
-        then DoneForm ns m g g' pend0 (pp p) (pp p + nplaces (XWhile e B)) (pa p) (pa p + napis (XWhile e B))
+        then DoneForm ctx cid ns m g g' pend0 (pp p) (pp p + nplaces (XWhile e B)) (pa p) (pa p + napis (XWhile e B))
                       xcbs (xplace (XWhile e B) p) kl
-        else exists ns', StayForm ns m g g' pend0 (pp p) (pp p + nplaces (XWhile e B)) (pa p)
+        else exists ns', StayForm ctx ns m g g' pend0 (pp p) (pp p + nplaces (XWhile e B)) (pa p)
                                   (pa p + napis (XWhile e B)) (ml st' (XWhile e B) p) ns' /\
-                         (act N0 ns' st' (XWhile e B) p ctx /\ C0 ns' (rch st' (XWhile e B) p kl)).
+                         (act N0 ns' st' (XWhile e B) p ctx /\ C0 ns' cid (rch st' (XWhile e B) p kl)).
   Proof.
     intros f HB e B p ctx cid ie kl rt xcbs t2 st id g st' g' ns m pend pend0 finp
            H Hf Hsok Hcd Hw Hnp HP HT Ht2 Hnt2 Hx2 Hinv Hgr Hrem Hact Hnd Hctx Hlt Hm Hd Hin HO.
@@ -4029,9 +4216,9 @@ Section Sim.
       pose proof Hres6 as (Inv6 & Gr6 & Ap6 & Aw6 & Sid6 & Di6).
       assert (Ao6' : agrees_out (pp p) (pp p + (4 + nplaces_l B)) m m6).
       { intros q Hq. rewrite (Ao6 q Hq). apply Ao5. exact Hq. }
-      assert (Hpost6 : Post ns ns6 g g' pend0 (pa p) (pa p + napis_l B)).
+      assert (Hpost6 : Post ctx ns ns6 g g' pend0 (pa p) (pa p + napis_l B)).
       { split; [exact Inv6|]. split.
-        - eapply (Frame_trans ns ns5 ns6); [exact Fr5|apply (Frame_of_StartRes _ _ _ _ _ _ _ _ Gr5 Hres6)|lia|lia|lia|lia].
+        - eapply (Frame_trans ctx ns ns5 ns6); [exact Fr5|apply (Frame_of_StartRes _ _ _ _ _ _ _ _ _ Gr5 Hres6)|lia|lia|lia|lia].
         - exists (new ++ svc_ids st2). split; [rewrite Aw6, Aw5, app_assoc; reflexivity|].
           rewrite app_assoc. exact Gr6. }
       destruct (is_done st2) eqn:D; cbn [Enters] in Hen.
@@ -4058,24 +4245,23 @@ Section Sim.
                    cnt m q = cnt (ml st (XCount v lim B) p) q + (if Nat.eqb q finp then 1 else 0)) ->
         Hout (pp p) (pp p + nplaces (XCount v lim B)) (pt p) (pt p + ntrans (XCount v lim B)) t2 m ->
         if is_done st'
-        then DoneForm ns m g g' pend0 (pp p) (pp p + nplaces (XCount v lim B)) (pa p) (pa p + napis (XCount v lim B))
+        then DoneForm ctx cid ns m g g' pend0 (pp p) (pp p + nplaces (XCount v lim B)) (pa p) (pa p + napis (XCount v lim B))
                       xcbs (xplace (XCount v lim B) p) kl
-        else exists ns', StayForm ns m g g' pend0 (pp p) (pp p + nplaces (XCount v lim B)) (pa p)
+        else exists ns', StayForm ctx ns m g g' pend0 (pp p) (pp p + nplaces (XCount v lim B)) (pa p)
                                   (pa p + napis (XCount v lim B)) (ml st' (XCount v lim B) p) ns' /\
-                         (act N0 ns' st' (XCount v lim B) p ctx /\ C0 ns' (rch st' (XCount v lim B) p kl)).
+                         (act N0 ns' st' (XCount v lim B) p ctx /\ C0 ns' cid (rch st' (XCount v lim B) p kl)).
   Proof.
     intros f HB v lim B p ctx cid ie kl rt xcbs t2 st id g st' g' ns m pend pend0 finp
            H Hf Hsok Hcd Hw Hnp HP HT Ht2 Hnt2 Hx2 Hinv Hgr Hrem Hact Hnd Hctx Hlt Hm Hd Hin HO.
     destruct st as [|id0|cid' i sti|sts|b i sti|k i sti|sts]; cbn [act] in Hact; try contradiction; try discriminate Hnd.
     pose proof (found_in _ _ _ _ _ _ _ _ _ H) as Hid. cbn [svc_ids] in Hid.
     change (act_block N0 ns B (loop_p p) ctx i sti) in Hact. rewrite ml_count in Hin.
-    pose proof Hsok as HsB. cbn [sok] in HsB. apply andb_prop in HsB. destruct HsB as [HsB1 HsB].
-    apply andb_prop in HsB1. destruct HsB1 as [Hnc Hrt]. apply negb_true_iff in Hnc. subst rt.
-    destruct (cd_rt _ _ _ _ _ _ _ _ Hcd eq_refl) as (Hc0 & Hcid0 & Hklb).
+    pose proof Hsok as HsB. cbn [sok] in HsB. apply andb_prop in HsB. destruct HsB as [Hnc HsB].
+    apply negb_true_iff in Hnc.
+    pose proof (cd_rt _ _ _ _ _ _ _ _ Hcd) as Hklb.
     rewrite rch_count in Hcd.
-    assert (HcdB : CD ns ctx cid ((v, k) :: ie) ((pkey p, k) :: kl) true (loop_p p) (rch_block B (loop_p p) i sti ((pkey p, k) :: kl))).
-    { constructor; [exact (cd_c0 _ _ _ _ _ _ _ _ Hcd)|intro Hc; congruence|].
-      intros _. split; [exact Hc0|]. split; [exact Hcid0|]. apply klb_push. exact Hklb. }
+    assert (HcdB : CD ns ctx cid ((v, k) :: ie) ((pkey p, k) :: kl) rt (loop_p p) (rch_block B (loop_p p) i sti ((pkey p, k) :: kl))).
+    { constructor; [exact (cd_c0 _ _ _ _ _ _ _ _ Hcd)|intro Hc; congruence|]. apply klb_push. exact Hklb. }
     pose proof (frag_count _ _ _ Hf) as HfB. pose proof Hw as Hwall. pose proof HO as HOall. pose proof Hx2 as Hx2all.
     pose proof HP as HPall. pose proof HT as HTall. pose proof Hnt2 as Hnt2all.
     rewrite nplaces_count, ntrans_count, napis_count in *. unfold in_t, in_p in *. rewrite ?nplaces_count, ?ntrans_count in *.
@@ -4086,7 +4272,7 @@ Section Sim.
     cbn [deliver] in H. mstep as r g1 E1. destruct r as [r|]; [|mstep; discriminate].
     pose proof (del_branch f HB B (loop_p p) (pt p + 2) (pp p)
                  (pp p) (pp p + (4 + nplaces_l B)) (pt p) (pt p + (3 + ntrans_b B))
-                 (pa p) (pa p + napis_l B) ctx cid ((v, k) :: ie) ((pkey p, k) :: kl) true [CW] t2 i sti id g r g1 ns m pend pend0 finp HfB HsB HcdB WB
+                 (pa p) (pa p + napis_l B) ctx cid ((v, k) :: ie) ((pkey p, k) :: kl) rt [CW] t2 i sti id g r g1 ns m pend pend0 finp HfB HsB HcdB WB
                  ltac:(cbn [loop_p pp]; lia) ltac:(cbn [loop_p pp]; lia) ltac:(cbn [loop_p pt]; lia)
                  ltac:(cbn [loop_p pt]; lia) ltac:(cbn [loop_p pa]; lia) ltac:(cbn [loop_p pa]; lia)
                  ltac:(lia) ltac:(unfold in_tb; cbn [loop_p pt]; lia) W7 W8 W9 eq_refl ltac:(lia)) as Hres.
@@ -4105,7 +4291,7 @@ Section Sim.
       mstep as st2 g2 E2. unfold ret in H. injection H as Hs Hg. subst st' g2.
       destruct Hres as (ns5 & m5 & [kk Hkk] & Mk5 & Ai5 & Ao5 & ((Inv5 & Fr5 & new & Aw5 & Gr5) & Hc5)).
       assert (Hctx5 : ctx_is ns5 ctx cid) by (eapply ctx_is_frame; [exact Hctx|exact Fr5|lia]).
-      destruct (count_ok f v lim B p ctx cid ie kl xcbs t2 (S k) g1 st2 g' ns5 m5 (pend0 ++ new) E2 Hf Hsok Hc0 Hcid0 Hklb Hc5 Hwall Hnp HPall HTall Ht2 Hnt2all Hx2all
+      destruct (count_ok f v lim B p ctx cid ie kl rt xcbs t2 (S k) g1 st2 g' ns5 m5 (pend0 ++ new) E2 Hf Hsok Hklb Hc5 Hwall Hnp HPall HTall Ht2 Hnt2all Hx2all
                         Inv5 Gr5 Hctx5 Hlt Mk5)
         as (ns6 & m6 & Hen & Mk6 & Ai6 & Ao6 & Hres6 & Hact6 & Hc6).
       { unfold in_p. rewrite nplaces_count. intros q Hq. cbn [entries]. exact (Ai5 q Hq). }
@@ -4114,9 +4300,9 @@ Section Sim.
       pose proof Hres6 as (Inv6 & Gr6 & Ap6 & Aw6 & Sid6 & Di6).
       assert (Ao6' : agrees_out (pp p) (pp p + (4 + nplaces_l B)) m m6).
       { intros q Hq. rewrite (Ao6 q Hq). apply Ao5. exact Hq. }
-      assert (Hpost6 : Post ns ns6 g g' pend0 (pa p) (pa p + napis_l B)).
+      assert (Hpost6 : Post ctx ns ns6 g g' pend0 (pa p) (pa p + napis_l B)).
       { split; [exact Inv6|]. split.
-        - eapply (Frame_trans ns ns5 ns6); [exact Fr5|apply (Frame_of_StartRes _ _ _ _ _ _ _ _ Gr5 Hres6)|lia|lia|lia|lia].
+        - eapply (Frame_trans ctx ns ns5 ns6); [exact Fr5|apply (Frame_of_StartRes _ _ _ _ _ _ _ _ _ Gr5 Hres6)|lia|lia|lia|lia].
         - exists (new ++ svc_ids st2). split; [rewrite Aw6, Aw5, app_assoc; reflexivity|].
           rewrite app_assoc. exact Gr6. }
       destruct (is_done st2) eqn:D; cbn [Enters] in Hen.
@@ -4149,7 +4335,7 @@ Section Sim.
         as (-> & _ & tr & ns' & m' & Htr & Hen & Hdis & Hrl & Mk' & Ai & Ao & Hpost & Hcn).
       cbn [is_done]. exists ns', m'.
       split; [|split; [exact Mk'|split; [exact Ai|split; [exact Ao|split; [exact Hpost|]]]]].
-      2:{ pose proof (cd_c0 _ _ _ _ _ _ _ _ Hcd) as Hc. rewrite rch_await in Hc. apply (C0_same ns ns' kl Hcn Hc). }
+      2:{ pose proof (cd_c0 _ _ _ _ _ _ _ _ Hcd) as Hc. rewrite rch_await in Hc. apply (C0_same ns ns' cid kl Hcn Hc). }
       exists []. intro K. eapply MS_trans; [apply (MS_fire1 ns m (pt p) tr _ K Hinv Hm ltac:(lia) Htr Hen Hdis Hcbs Hnp)|].
       change (CbSF (pa p) :: xcbs) with ([CbSF (pa p)] ++ xcbs). apply MS_list. exact Hrl.
     - (* task call *)
@@ -4216,7 +4402,7 @@ Section Sim.
     | Some (RCall cid i st) =>
       cid = 0 /\ GR (sc_g sc) ns (g_awaited (sc_g sc)) /\ act_block N0 ns body p0 0 i st /\
       Marks ns (ml_block body p0 i st) /\ nth_error (ns_apis ns) 0 = Some root_api /\
-      C0 ns (rch_block body p0 i st [])
+      (C0 ns cid (rch_block body p0 i st []) /\ 0 < ns_tid ns)
     | Some RDone => GR (sc_g sc) ns (g_awaited (sc_g sc)) /\ Marks ns [1]
     | Some _ => False
     end.
@@ -4352,14 +4538,15 @@ Section Sim.
     pose proof (Inv_fire s2 tr1 Inv2 Hlenf) as Invf. pose proof (GR_fire _ _ _ tr1 Gr2) as Grf. fold nsf in Invf, Grf.
     assert (Hapi0 : nth_error (ns_apis nsf) 0 = Some root_api).
     { change (ns_apis nsf) with (ns_apis ns). rewrite Hapis. apply (no_root _ _ HN0). }
-    destruct (sim_TS 0 root_api None g1 g3 nsf [] Invf Grf Hapi0 eq_refl eq_refl (orb_true_r _) I)
+    destruct (sim_TS 0 root_api None g1 g3 nsf [] Invf Grf Hapi0 eq_refl eq_refl (orb_true_r _) I (or_introl eq_refl))
       as (Hrun1 & Hcbs1 & Inv3 & Gr3 & Pl3 & Ap3 & Di3 & Cn3).
     { unfold g3, g_step. rewrite Htid1. cbn [root_api a_name a_site a_params]. repeat split; reflexivity. }
     set (ns3 := notified TS (with_uuid (ITest (ns_tid nsf)) root_api) false (ts_pre 0 nsf)) in *.
     assert (Hn0' : exists s0, nth_error body 0 = Some s0) by (destruct body; [discriminate Hfrag|eexists; reflexivity]).
     destruct Hn0' as [s0 Hn0].
     assert (Hctx3 : ctx_is ns3 0 0).
-    { eexists. split; [rewrite Ap3; apply nth_error_upd_eq; exact Hapi0|]. cbn [with_uuid a_uuid]. rewrite Htid1. reflexivity. }
+    { eexists. split; [rewrite Ap3; apply nth_error_upd_eq; exact Hapi0|]. cbn [with_uuid a_uuid]. rewrite Htid1.
+      split; [reflexivity|]. split; [reflexivity|]. rewrite (gr_tid _ _ _ Gr3). unfold g3. cbn [g_tid set]. lia. }
     pose proof (frag_block_nth _ _ _ Hfrag Hn0) as Hfs0.
     rewrite (entries_b_nth0 _ _ _ Hn0) in P2. rewrite (startcbs_b_nth0 _ _ _ _ Hn0) in P3.
     assert (Hent : forall q, In q (entries s0 (spos body p0 0)) -> in_pb body p0 q).
@@ -4377,7 +4564,7 @@ Section Sim.
     assert (H03 : ~ In 0 m3) by (intro Hi; apply Hent in Hi; unfold in_pb in Hi; cbn [p0 pp] in Hi; lia).
     assert (H1T : 1 < nT) by (rewrite nT_eq; lia).
     assert (Hcx3 : CX ns3 0 0 [] [] true p0).
-    { constructor; [|reflexivity|intros _; split; [reflexivity|split; [reflexivity|intros key k []]]].
+    { constructor; [|reflexivity|intros key k []].
       unfold C0, counters_of. rewrite Cn3. change (ns_counters nsf) with (ns_counters ns). rewrite Hcn0. reflexivity. }
     destruct (start_block_ok fu body p0 0 0 [] [] true [] 1 0 s0 g3 r g4 ns3 m3 [] E4 Hn0 Hfrag Hsok0 Hcx3 (no_body _ _ HN0) eq_refl
                              ltac:(rewrite nP_eq; cbn [p0 pp]; lia) ltac:(rewrite nT_eq; cbn [p0 pt]; lia) H1T
@@ -4425,7 +4612,8 @@ Section Sim.
         eapply dis_disabled; [exact Inv4|exact Mk4'|]. apply (root_quiet ns4 j st0 Hact4 j0 Hj0).
       + split; [exact Inv4|]. split; [apply (gr_log _ _ _ Gr4)|]. cbn [sc_root sc_g].
         split; [reflexivity|]. split; [rewrite Aw4, Haw3; exact Gr4|]. split; [exact Hact4|].
-        split; [exact Mk4'|split; [exact Hapi4|exact Hc4]].
+        split; [exact Mk4'|split; [exact Hapi4|split; [exact Hc4|]]].
+        rewrite (gr_tid _ _ _ Gr4). destruct Sid4 as (_ & St4 & _). unfold g3 in St4. cbn [g_tid set] in St4. lia.
     - (* the whole order completes at once *)
       assert (Hm4q : forall q, cnt m4 q = if Nat.eqb q (xplace_b body p0) then 1 else 0).
       { intro q. rewrite (root_marking m3 m4 [xplace_b body p0] Hent); [cnt_cases|intros q0 [<-|[]]; apply (xplace_range_b body Hfrag p0)|exact Ai4|exact Ao4]. }
@@ -4459,15 +4647,17 @@ Section Sim.
 
   Lemma act_block_same : forall a b l bp ctx i st,
       frag_block l = true -> ns_apis b = ns_apis a -> ns_place_dict b = ns_place_dict a -> ns_sid b = ns_sid a ->
+      ns_counters b = ns_counters a ->
       act_block N0 a l bp ctx i st -> act_block N0 b l bp ctx i st.
   Proof.
-    intros a b l bp ctx i st Hf Ea Ed Es (H1 & H2 & H3). split; [exact H1|]. split.
+    intros a b l bp ctx i st Hf Ea Ed Es Ec (H1 & H2 & H3). split; [exact H1|]. split.
     - reflexivity.
     - destruct (nth_error l i) as [s'|] eqn:En; [|contradiction].
       apply (act_mono N0 a b st s' _ ctx (frag_block_nth _ _ _ Hf En) H3).
       + intros k _. rewrite Ea. reflexivity.
       + rewrite Es. apply Nat.le_refl.
       + exists []. split; [rewrite Ed; reflexivity|constructor].
+      + intros k ac _ _ _. unfold counters_of. rewrite Ec. reflexivity.
   Qed.
 
   Lemma rel_finish : forall fu sc ns id b sc',
@@ -4513,7 +4703,7 @@ Section Sim.
       unfold s2, placed. cbn [ns_places set]. rewrite upd_length. exact I8. }
     assert (Gr2 : GR g2 s2 (g_awaited (sc_g sc))) by (destruct Gr1; constructor; assumption).
     assert (Hab2 : act_block N0 s2 body p0 0 i sti) by (apply (act_block_same ns s2); try assumption; reflexivity).
-    assert (Hctx2 : ctx_is s2 0 0) by (exists root_api; split; [exact Hapi0|reflexivity]).
+    assert (Hctx2 : ctx_is s2 0 0) by (exists root_api; split; [exact Hapi0|split; [reflexivity|split; [reflexivity|exact (proj2 Hc00)]]]).
     assert (Hmlr : forall q, In q (finp :: ml_block body p0 i sti) -> in_pb body p0 q).
     { intros q [<-|Hq]; [unfold in_pb; cbn [p0 pp]; lia|]. apply (ml_range_block N0 ns body p0 0 i sti Hfrag Hab q Hq). }
     assert (H0m : ~ In 0 (finp :: ml_block body p0 i sti)).
@@ -4521,7 +4711,7 @@ Section Sim.
     destruct (no_c2 _ _ HN0) as (Q1 & Q2 & Q3).
     assert (H1T : 1 < nT) by (rewrite nT_eq; lia).
     assert (Hcd2 : CD s2 0 0 [] [] true p0 (rch_block body p0 i sti [])).
-    { constructor; [exact Hc00|reflexivity|intros _; split; [reflexivity|split; [reflexivity|intros key k []]]]. }
+    { constructor; [exact (proj1 Hc00)|reflexivity|intros key k []]. }
     pose proof (del_block_ok fu body p0 0 0 [] [] true [] 1 i sti id g2 r g3 s2 (finp :: ml_block body p0 i sti)
                    (g_awaited (sc_g sc)) aw' finp E3 Hfrag Hsok0 Hcd2 (no_body _ _ HN0) eq_refl
                    ltac:(rewrite nP_eq; cbn [p0 pp]; lia) ltac:(rewrite nT_eq; cbn [p0 pt]; lia)
@@ -4550,13 +4740,14 @@ Section Sim.
         eapply dis_disabled; [exact Inv'|exact Mk''|]. apply (root_quiet ns' j st' Hab' j0 Hj0).
       + split; [exact Inv'|]. split; [apply (gr_log _ _ _ Gr')|]. cbn [sc_root sc_g].
         split; [reflexivity|]. split; [rewrite Aw'; exact Gr'|]. split; [exact Hab'|]. split; [exact Mk''|].
-        split; [rewrite (fr_apis _ _ _ _ Fr') by (cbn [p0 pa]; lia); exact Hapi0|exact Hc'].
+        split; [rewrite (fr_apis _ _ _ _ _ Fr') by (cbn [p0 pa]; lia); exact Hapi0|split; [exact Hc'|]].
+        pose proof (fr_sid _ _ _ _ _ Fr') as (_ & Ht & _). pose proof (proj2 Hc00) as Hp0. change (ns_tid s2) with (ns_tid ns) in Ht. lia.
     - (* the last statement is complete: the production task finishes *)
       destruct Hres as (nsa & m' & Hex & Mka & Aia & Aoa & ((Inva & Fra & new & Awa & Gra) & Hca)).
       assert (Hm'q : forall q, cnt m' q = if Nat.eqb q (xplace_b body p0) then 1 else 0).
       { intro q. rewrite (root_marking _ m' [xplace_b body p0] Hmlr); [cnt_cases|intros q0 [<-|[]]; apply (xplace_range_b body Hfrag p0)|exact Aia|exact Aoa]. }
       assert (Hapia : nth_error (ns_apis nsa) 0 = Some root_api).
-      { rewrite (fr_apis _ _ _ _ Fra) by (cbn [p0 pa]; lia). exact Hapi0. }
+      { rewrite (fr_apis _ _ _ _ _ Fra) by (cbn [p0 pa]; lia). exact Hapi0. }
       destruct (root_exit nsa m' g3 st g' (aw' ++ new) Inva Mka Hm'q Gra Hapia E) as (-> & Eaw & ns5 & St5 & Inv5 & Gr5 & Mk5 & Hd5).
       destruct (Exits_steps s2 ns5 (Exits_then _ _ _ Hex St5) Inv5 Hd5) as [jj St].
       exists (bumpn jj ns5). split.
@@ -4647,7 +4838,13 @@ Section Sim.
     - constructor; try assumption; try reflexivity.
       + rewrite S7, S8, S2, S13. split; [apply ls_ok_default|]. split; [intros _; split; reflexivity|].
         split; [intros i [Hi|[]]; discriminate Hi|intros i []].
-      + rewrite S4. split; [constructor|reflexivity].
+      + split; [rewrite S4; split; [constructor|reflexivity]|].
+        assert (Z : forall k a i, nth_error (ns_apis N0) k = Some a -> a_uuid a = ITest i -> k = 0 /\ i = 0).
+        { intros k a i Hk Hu. destruct (NetOf_uuids body N0 Hfrag HN0 k a Hk) as [->|E]; [|congruence].
+          rewrite (no_root _ _ HN0) in Hk. inversion Hk; subst a. cbn [root_api a_uuid] in Hu. inversion Hu. split; reflexivity. }
+        split; [intros u d Hd; rewrite S4 in Hd; discriminate Hd|]. split.
+        * intros k a i Hk _ Hu. right. apply (Z k a i Hk Hu).
+        * intros k1 k2 a1 a2 i H1 H2 _ _ U1 U2. destruct (Z _ _ _ H1 U1) as [-> _]. destruct (Z _ _ _ H2 U2) as [-> _]. reflexivity.
       + apply (no_start _ _ HN0).
       + apply (no_final _ _ HN0).
       + exists []. split; [reflexivity|constructor].
